@@ -1,14 +1,17 @@
-(* Facts about Model/SubPipe.v: a successful subpipeline keeps every needed function, preserves the values of
-   the requested outputs, and is only returned for computable requests. *)
+(* Facts about Model/SubPipe.v (repaired Pipeline.subpipeline): with output_names the sub-pipeline consists of
+   EXACTLY the functions on a dependency path to the requested outputs that are not cut off by the provided
+   names; it computes the values of the full pipeline; a request is accepted iff it is computable (up to the
+   consistency of dead defaults); Pipeline.map on it calls exactly those functions, each once. *)
 From Verif Require Import Base.Prelude Base.StrOrd Base.Graph Model.Pipe Model.SubPipe
                           Proofs.GraphFacts Proofs.PipeFacts Proofs.ArgCombFacts.
 From Coq Require Import Permutation.
 
-Lemma mapM_Ok_inv {A B} (f : A -> result B) l ys : mapM f l = Ok ys -> forall x, In x l -> exists y, f x = Ok y.
+Lemma mapM_Ok_inv {A B} (f : A -> result B) l ys : mapM f l = Ok ys -> forall x, In x l -> exists y, In y ys /\ f x = Ok y.
 Proof.
   revert ys. induction l as [|a l IH]; intros ys H x Hin; [contradiction|]. cbn in H.
   destruct (f a) as [y|e] eqn:Ea; cbn in H; [|discriminate]. destruct (mapM f l) as [l'|e] eqn:El; cbn in H; [|discriminate].
-  destruct Hin as [<-|Hin]; eauto.
+  inversion H; subst ys. destruct Hin as [<-|Hin]; [exists y; split; [now left|assumption]|].
+  destruct (IH l' eq_refl x Hin) as [y' [H1 H2]]. exists y'. split; [now right|assumption].
 Qed.
 
 Lemma mapM_Ok_In {A B} (f : A -> result B) l ys : mapM f l = Ok ys -> forall y, In y ys -> exists x, In x l /\ f x = Ok y.
@@ -19,293 +22,441 @@ Proof.
   destruct (IH l' eq_refl y Hin) as [x [H1 H2]]. exists x. split; [now right|assumption].
 Qed.
 
-Lemma drop_loop_filter : forall drop cur q, drop_loop cur drop = Ok q ->
-  q = filter (fun g => negb (mem_str (fid g) (map fid drop))) cur.
+Lemma mapM_total {A B} (f : A -> result B) l : (forall x, In x l -> exists y, f x = Ok y) -> exists ys, mapM f l = Ok ys.
 Proof.
-  induction drop as [|f t IH]; intros cur q H; cbn in H.
-  - inversion H; subst. cbn. clear H. induction q as [|g q IHq]; cbn; [reflexivity|]. now rewrite <- IHq.
-  - destruct (consistent_defaults _); [|discriminate]. apply IH in H. rewrite H. clear H.
-    induction cur as [|g cur IHc]; [reflexivity|]. cbn [filter map mem_str].
-    destruct (str_eqb (fid g) (fid f)) eqn:E; cbn [negb orb filter]; [apply IHc|].
-    destruct (mem_str (fid g) (map fid t)); cbn [negb]; [apply IHc|now rewrite IHc].
+  induction l as [|a l IH]; intros H; cbn; [eauto|]. destruct (H a (or_introl eq_refl)) as [y Hy]. rewrite Hy. cbn.
+  destruct IH as [ys Hys]; [intros x Hx; apply H; now right|]. rewrite Hys. cbn. eauto.
 Qed.
 
-Lemma drop_loop_keep p b q : drop_loop p (filter (fun f => negb (mem_str (fid f) b)) p) = Ok q -> q = keep p b.
-Proof.
-  intros H. apply drop_loop_filter in H. subst q. unfold keep. apply filter_ext_in. intros g Hg.
-  destruct (mem_str (fid g) b) eqn:Eb.
-  - apply negb_true_iff. apply mem_str_not_In. intros Hin. apply in_map_iff in Hin as [f [Ef Hf]].
-    apply filter_In in Hf as [_ Hf]. apply negb_true_iff in Hf. rewrite Ef in Hf. congruence.
-  - apply negb_false_iff. apply mem_str_In. apply in_map_iff. exists g. split; [reflexivity|].
-    apply filter_In. split; [assumption|]. now rewrite Eb.
-Qed.
+(* ---------- with_defaults only touches the defaults ---------- *)
+Section Upd.
+  Variable e : alist.
+  Let upd := with_defaults e.
 
-Section Sub.
+  Lemma find_map_upd (P : pfunc -> bool) q : (forall f, P (upd f) = P f) ->
+    find P (map upd q) = option_map upd (find P q).
+  Proof.
+    intros H. induction q as [|f q IH]; cbn; [reflexivity|]. rewrite H. destruct (P f); [reflexivity|exact IH].
+  Qed.
+
+  Lemma producer_upd q o : producer (map upd q) o = option_map upd (producer q o).
+  Proof. unfold producer. apply find_map_upd. intros f. reflexivity. Qed.
+
+  Lemma is_output_upd q o : is_output (map upd q) o = is_output q o.
+  Proof. unfold is_output. rewrite producer_upd. now destruct (producer q o). Qed.
+
+  Lemma root_arg_names_upd q : root_arg_names (map upd q) = root_arg_names q.
+  Proof.
+    unfold root_arg_names. f_equal. generalize q at 1 3. intros P.
+    induction q as [|g l IHl]; [reflexivity|]. cbn [map flat_map]. f_equal; [|exact IHl].
+    change (pnames (upd g)) with (pnames g). change (bound (upd g)) with (bound g).
+    apply filter_ext. intros cur. now rewrite is_output_upd.
+  Qed.
+
+  Lemma in_map_upd q f' : In f' (map upd q) -> exists f, In f q /\ f' = upd f.
+  Proof. intros H. apply in_map_iff in H as [f [E Hf]]. eauto. Qed.
+End Upd.
+
+(* ---------- the cut graph ---------- *)
+Section Cut.
   Variable p : pipeline.
   Variable ls : list (list str).
   Hypothesis Hwf : wf_P p ls.
   Variable Ip : list str.            (* provided names *)
-  Variable Sq : list str.            (* requested outputs *)
-  Variable p' : pipeline.
-  Hypothesis Hsub : subpipeline p Ip (Some Sq) = Ok p'.
-
-  Let Hnd := wf_outs_nd _ _ Hwf.
-
-  (* what success means *)
-  Lemma sub_facts : exists b,
-    p' = keep p b
-    /\ (forall o, In o Sq -> is_output p' o = true)
-    /\ (forall r, In r (root_arg_names p') ->
-          (In r (akeys (pdefaults p')) /\ In r (akeys (pdefaults p))) \/ In r Ip).
-  Proof.
-    unfold subpipeline in Hsub. destruct (mapM (node_of p) Ip) as [ins|e]; cbn in Hsub; [|discriminate].
-    destruct (mapM (node_of p) Sq) as [outs|e]; cbn in Hsub; [|discriminate].
-    set (b := between (graph_of p) ins outs) in *. exists b.
-    destruct (drop_loop p (filter (fun f => negb (mem_str (fid f) b)) p)) as [q|e] eqn:Ed; cbn in Hsub; [|discriminate].
-    apply drop_loop_keep in Ed. subst q.
-    destruct (negb (forallb (is_output (keep p b)) Sq)) eqn:E1; [discriminate|].
-    destruct (forallb _ (root_arg_names (keep p b))) eqn:E2; [|discriminate].
-    inversion Hsub; subst p'. split; [reflexivity|]. split.
-    - apply negb_false_iff in E1. rewrite forallb_forall in E1. exact E1.
-    - intros r Hr. rewrite forallb_forall in E2. specialize (E2 r Hr). apply orb_true_iff in E2 as [E2|E2].
-      + left. apply mem_str_In in E2. unfold inter_str in E2. apply filter_In in E2 as [H1 H2].
-        apply mem_str_In in H2. auto.
-      + right. now apply mem_str_In.
-  Qed.
-
-  Lemma kept_in_p f : In f p' -> In f p.
-  Proof. destruct sub_facts as [b [-> _]]. unfold keep. intros H. now apply filter_In in H. Qed.
-
-  Lemma producer_sub o f : producer p' o = Some f -> producer p o = Some f.
-  Proof.
-    intros H. apply producer_Some in H as [H1 H2]. apply producer_unique; auto. now apply kept_in_p.
-  Qed.
-
-  Lemma is_output_sub o : is_output p' o = true -> is_output p o = true.
-  Proof. intros H. apply is_output_true in H as [f Hf]. apply is_output_true. exists f. now apply producer_sub. Qed.
-
-  Lemma producer_sub_rev o f : producer p o = Some f -> In f p' -> producer p' o = Some f.
-  Proof.
-    intros H Hf. destruct (producer p' o) as [g|] eqn:E.
-    - apply producer_sub in E. congruence.
-    - exfalso. apply producer_Some in H as [_ Ho]. eapply producer_None; eauto.
-  Qed.
-
-  (* an unbound parameter of a kept function that is not provided: either its producer is kept too, or it is not
-     an output at all and keeps its default *)
-  Lemma kept_param f cur : In f p' -> In cur (pnames f) -> aget (bound f) cur = None -> ~ In cur Ip ->
-    (is_output p' cur = true) \/
-    (is_output p' cur = false /\ is_output p cur = false /\ In cur (akeys (pdefaults p')) /\ In cur (akeys (pdefaults p))).
-  Proof.
-    intros Hf Hcur Hb Hni. destruct (is_output p' cur) eqn:Eo; [now left|right]. split; [reflexivity|].
-    destruct sub_facts as [b [_ [_ Hroots]]].
-    assert (Hr : In cur (root_arg_names p')).
-    { unfold root_arg_names. apply dedup_In, in_flat_map. exists f. split; [assumption|]. apply filter_In.
-      split; [assumption|]. apply ahas_false_iff in Hb. now rewrite Hb, Eo. }
-    destruct (Hroots cur Hr) as [[H1 H2]|H]; [|contradiction]. split; [|auto].
-    unfold pdefaults, akeys in H2. apply in_map_iff in H2 as [[k v] [Ek H2]]. cbn in Ek. subst k.
-    apply in_flat_map in H2 as [g [_ H2]]. apply filter_In in H2 as [_ H2]. cbn in H2.
-    apply andb_true_iff in H2 as [_ H2]. now apply negb_true_iff in H2.
-  Qed.
-
-  Lemma default_sub cur : is_output p cur = false -> In cur (akeys (pdefaults p')) ->
-    default_of p' cur = default_of p cur /\ default_of p cur <> None.
-  Proof.
-    intros Ho Hk. unfold default_of.
-    assert (Hincl : forall k v, k = cur -> In (k, v) (pdefaults p') -> In (k, v) (pdefaults p)).
-    { intros k v -> H. unfold pdefaults in *. apply in_flat_map in H as [g [Hg H]]. apply in_flat_map. exists g.
-      split; [now apply kept_in_p|]. apply filter_In in H as [H1 H2]. apply filter_In. split; [assumption|]. cbn in *.
-      apply andb_true_iff in H2 as [H2 _]. now rewrite H2, Ho. }
-    destruct (aget (pdefaults p') cur) as [v|] eqn:E.
-    - apply aget_Some_In in E. apply (Hincl cur v eq_refl) in E. apply (wf_defaults _ _ Hwf) in E. rewrite E.
-      split; [reflexivity|discriminate].
-    - apply aget_None_iff in E. contradiction.
-  Qed.
-
   Variable kw : alist.
   Hypothesis Hkw : forall k, In k (akeys kw) <-> In k Ip.
 
   Lemma kw_none cur : aget kw cur = None <-> ~ In cur Ip.
   Proof. rewrite aget_None_iff. now rewrite Hkw. Qed.
 
-  (* every function on a dependency path to a kept output that is not cut off by the provided names is kept *)
-  Lemma needed_sub_kept : forall n o f, is_output p' o = true -> In f (needed n p kw o) -> In f p'.
+  Lemma cut_edge n m : In (n, m) (edges (cut_graph p Ip)) <->
+    exists f cur, In f p /\ m = fid f /\ In cur (pnames f) /\ ~ In cur Ip /\ dep_node p f cur = Some n.
   Proof.
-    induction n as [|n IH]; intros o f Ho Hf; [contradiction|]. apply is_output_true in Ho as [g Eg].
-    pose proof (producer_sub _ _ Eg) as Eg'. rewrite (needed_S p kw), Eg' in Hf.
-    pose proof (producer_Some _ _ _ Eg) as [Hg _].
-    destruct Hf as [<-|Hf]; [assumption|]. apply in_flat_map in Hf as [cur [Hcur Hf]].
-    destruct (source_of p kw g cur) as [| |h| |] eqn:Es; try contradiction.
-    apply (source_SUp p kw) in Es as [Eb [Ek Eh]]. apply kw_none in Ek.
-    destruct (kept_param g cur Hg Hcur Eb Ek) as [Ho'|[_ [Ho' _]]].
-    - eapply IH; eauto.
-    - apply is_output_false in Ho'. congruence.
+    cbn. rewrite in_flat_map. split.
+    - intros [f [Hf H]]. apply in_map_iff in H as [d [E Hd]]. inversion E; subst d m. rewrite dedup_In in Hd.
+      apply in_flat_map in Hd as [cur [Hcur Hd]]. destruct (mem_str cur Ip) eqn:Em; [contradiction|].
+      apply mem_str_not_In in Em. destruct (dep_node p f cur) as [x|] eqn:Ed; [|contradiction].
+      destruct Hd as [<-|[]]. exists f, cur. auto.
+    - intros [f [cur [Hf [-> [Hcur [Hni Hd]]]]]]. exists f. split; [assumption|]. apply in_map_iff. exists n. split; [reflexivity|].
+      rewrite dedup_In. apply in_flat_map. exists cur. split; [assumption|]. apply mem_str_not_In in Hni. rewrite Hni, Hd. now left.
   Qed.
 
-  (* the sub-pipeline computes, for its outputs, the values of the full pipeline *)
-  Theorem sub_values body pick : forall n o, is_output p' o = true ->
-    eval body pick n p' kw o = eval body pick n p kw o.
+  Lemma dep_node_Some f cur n : dep_node p f cur = Some n ->
+    aget (bound f) cur = None /\ ((exists g, producer p cur = Some g /\ n = fid g) \/ (producer p cur = None /\ n = cur)).
   Proof.
-    induction n as [|n IH]; intros o Ho; [reflexivity|]. cbn [eval].
-    apply is_output_true in Ho as [g Eg]. rewrite Eg, (producer_sub _ _ Eg).
-    pose proof (producer_Some _ _ _ Eg) as [Hg _].
-    assert (E : args_with (eval body pick n p' kw) p' kw g = args_with (eval body pick n p kw) p kw g).
-    { unfold args_with. apply mapM_ext_in. intros [cur orig] Hin. cbn [fst snd].
-      assert (Hcur : In cur (pnames g)) by (apply in_map_iff; now exists (cur, orig)).
-      enough (arg_val (eval body pick n p' kw) p' kw g cur = arg_val (eval body pick n p kw) p kw g cur) as -> by reflexivity.
-      unfold arg_val. destruct (aget (bound g) cur) eqn:Eb; [reflexivity|]. destruct (aget kw cur) eqn:Ek; [reflexivity|].
-      apply kw_none in Ek. destruct (kept_param g cur Hg Hcur Eb Ek) as [Ho'|[Ho1 [Ho2 [Hd1 Hd2]]]].
-      - rewrite Ho', (is_output_sub _ Ho'). now apply IH.
-      - rewrite Ho1, Ho2. destruct (default_sub cur Ho2 Hd1) as [-> _]. reflexivity. }
-    now rewrite E.
+    unfold dep_node. destruct (ahas (bound f) cur) eqn:Eb; [discriminate|]. apply ahas_false_iff in Eb.
+    destruct (producer p cur) as [g|] eqn:Eg; intros H; inversion H; subst; eauto.
   Qed.
 
-  (* success implies that the request was computable *)
-  Theorem sub_computable : forall o, In o Sq -> is_output p o = true /\ sufficient p kw o.
+  Lemma fid_is_output f : In f p -> is_output p (fid f) = true.
   Proof.
-    intros o Ho. destruct sub_facts as [b [_ [Houts _]]]. pose proof (Houts o Ho) as Ho'.
-    split; [now apply is_output_sub|]. intros f cur Hf Hcur. unfold needed_top in Hf.
-    pose proof (needed_sub_kept _ _ _ Ho' Hf) as Hfk. unfold source_of.
-    destruct (aget (bound f) cur) eqn:Eb; [discriminate|]. destruct (aget kw cur) eqn:Ek; [discriminate|].
-    destruct (producer p cur) eqn:Ep; [discriminate|]. apply kw_none in Ek.
-    destruct (kept_param f cur Hfk Hcur Eb Ek) as [Ho1|[Ho1 [Ho2 [Hd1 Hd2]]]].
-    - apply is_output_sub in Ho1. apply is_output_true in Ho1 as [g Hg]. congruence.
-    - destruct (default_sub cur Ho2 Hd1) as [_ Hne]. destruct (default_of p cur); [discriminate|congruence].
+    intros Hf. apply is_output_true. exists f. apply producer_unique; auto; [apply (wf_outs_nd _ _ Hwf)|].
+    apply fid_in_outs. apply (wff_outs_ne _ (wf_funcs _ _ Hwf f Hf)).
   Qed.
 
-  (* ---------- exactness when only root arguments are provided ---------- *)
-  Lemma kept_reaches_output f : In f p' ->
-    exists o h, In o Sq /\ producer p o = Some h /\ gpath (graph_of p) (fid f) (fid h).
+  Lemma wf_cut_graph : wf_graph (cut_graph p Ip).
   Proof.
-    intros Hf. pose proof Hsub as Hs. unfold subpipeline in Hs.
-    destruct (mapM (node_of p) Ip) as [ins|e]; cbn in Hs; [|discriminate].
-    destruct (mapM (node_of p) Sq) as [outs|e] eqn:Eo; cbn in Hs; [|discriminate].
-    set (b := between (graph_of p) ins outs) in *.
-    destruct (drop_loop p (filter (fun f => negb (mem_str (fid f) b)) p)) as [q|e] eqn:Ed; cbn in Hs; [|discriminate].
-    apply drop_loop_keep in Ed. subst q.
-    destruct (negb (forallb (is_output (keep p b)) Sq)) eqn:E1; [discriminate|].
-    destruct (forallb _ (root_arg_names (keep p b))) eqn:E2; [|discriminate].
-    inversion Hs; subst p'. clear Hs. unfold keep in Hf. apply filter_In in Hf as [Hfp Hb]. apply mem_str_In in Hb.
-    unfold b, between, inter_str in Hb. apply filter_In in Hb as [_ Hb]. apply mem_str_In in Hb.
-    assert (Hout : forall t, In t outs -> exists o h, In o Sq /\ producer p o = Some h /\ t = fid h).
-    { intros t Ht. destruct (mapM_Ok_In _ _ _ Eo t Ht) as [o [Ho Hn]]. exists o.
-      apply negb_false_iff in E1. rewrite forallb_forall in E1. specialize (E1 o Ho).
-      assert (Hop : is_output p o = true).
-      { apply is_output_true in E1 as [h Hh]. apply producer_Some in Hh as [Hh1 Hh2]. unfold keep in Hh1.
-        apply filter_In in Hh1 as [Hh1 _]. apply is_output_true. exists h. apply producer_unique; auto. }
-      apply is_output_true in Hop as [h Hh]. exists h. unfold node_of in Hn. rewrite Hh in Hn. inversion Hn. auto. }
-    apply in_app_iff in Hb as [Hb|Hb].
-    - apply in_flat_map in Hb as [t [Ht Hanc]]. destruct (Hout t Ht) as [o [h [H1 [H2 ->]]]].
-      exists o, h. repeat split; auto. now apply ancestors_sound.
-    - destruct (Hout _ Hb) as [o [h [H1 [H2 E]]]]. exists o, h. repeat split; auto. rewrite E. constructor.
+    intros a b He. apply cut_edge in He as [f [cur [Hf [-> [Hcur [Hni Hd]]]]]]. cbn. split.
+    - apply dep_node_Some in Hd as [Hb [[g [Eg ->]]|[Eg ->]]]; apply in_app_iff.
+      + left. apply in_map. now apply producer_Some in Eg.
+      + right. unfold root_arg_names. apply dedup_In, in_flat_map. exists f. split; [assumption|]. apply filter_In.
+        split; [assumption|]. apply ahas_false_iff in Hb. apply is_output_false in Eg. now rewrite Hb, Eg.
+    - apply in_app_iff. left. now apply in_map.
   Qed.
 
-  Hypothesis Hroots_only : forall k, In k Ip -> is_output p k = false.
-
-  Lemma path_needed o : forall x z, gpath (graph_of p) x z ->
+  (* a path in the cut graph into a needed function comes from a needed function *)
+  Lemma path_needed_cut o : forall x z, gpath (cut_graph p Ip) x z ->
     forall f h, In f p -> In h p -> x = fid f -> z = fid h -> In h (needed_top p kw o) -> In f (needed_top p kw o).
   Proof.
     induction 1 as [x|x y z He Hp IH]; intros f h Hf Hh Ex Ez Hn.
-    - assert (f = h) by (eapply fid_inj; eauto; congruence). now subst.
-    - cbn in He. apply in_flat_map in He as [f' [Hf' He]]. apply in_map_iff in He as [d [E Hd]].
-      inversion E; subst d y. clear E. rewrite dedup_In in Hd.
+    - assert (f = h) by (eapply (fid_inj p ls Hwf); eauto; congruence). now subst.
+    - apply cut_edge in He as [f' [cur [Hf' [-> [Hcur [Hni Hd]]]]]].
       assert (Hn' : In f' (needed_top p kw o)) by (eapply IH; eauto).
-      apply fpreds_In in Hd as [cur [Hcur [Eb [[g [Eg Ed]]|[Eg Ed]]]]].
+      apply dep_node_Some in Hd as [Hb [[g [Eg Ed]]|[Eg Ed]]].
       + pose proof (producer_Some _ _ _ Eg) as [Hg _].
-        assert (g = f) by (eapply fid_inj; eauto; congruence). subst g.
-        assert (Ek : aget kw cur = None).
-        { apply kw_none. intros Hi. apply Hroots_only in Hi. apply is_output_false in Hi. congruence. }
+        assert (g = f) by (eapply (fid_inj p ls Hwf); eauto; congruence). subst g.
         unfold needed_top in *. eapply (needed_closed p ls Hwf kw); eauto.
         * apply rk_lt_N. exact Hwf.
-        * now apply source_SUp_intro.
-      + exfalso. apply (producer_None p cur Eg f Hf). rewrite <- Ed, Ex. apply fid_in_outs.
-        apply (wff_outs_ne _ (wf_funcs _ _ Hwf f Hf)).
+        * apply source_SUp_intro; auto. now apply kw_none.
+      + exfalso. pose proof (fid_is_output f Hf) as Ho. rewrite <- Ex, Ed in Ho. apply is_output_false in Eg. congruence.
   Qed.
 
-  Theorem sub_exact_roots f : In f p ->
-    (In f p' <-> exists o, In o Sq /\ In f (needed_top p kw o)).
+  (* conversely a needed function reaches the producer of the requested output *)
+  Lemma needed_path : forall n o f h, In f (needed n p kw o) -> producer p o = Some h ->
+    gpath (cut_graph p Ip) (fid f) (fid h).
   Proof.
-    intros Hf. split.
-    - intros Hk. destruct (kept_reaches_output f Hk) as [o [h [Ho [Eh Hp]]]]. exists o. split; [assumption|].
-      pose proof (producer_Some _ _ _ Eh) as [Hh _].
-      eapply (path_needed o _ _ Hp f h); eauto. unfold needed_top. rewrite (needed_S p kw), Eh. now left.
-    - intros [o [Ho Hn]]. destruct sub_facts as [b [_ [Houts _]]]. eapply needed_sub_kept; eauto.
+    induction n as [|n IH]; intros o f h Hf Eh; [contradiction|]. rewrite (needed_S p kw), Eh in Hf.
+    destruct Hf as [<-|Hf]; [constructor|]. apply in_flat_map in Hf as [cur [Hcur Hf]].
+    destruct (source_of p kw h cur) as [| |g| |] eqn:Es; try contradiction.
+    apply (source_SUp p kw) in Es as [Eb [Ek Eg]]. eapply gpath_snoc; [eapply IH; eauto|].
+    apply cut_edge. exists h, cur. pose proof (producer_Some _ _ _ Eh) as [Hh _]. repeat split; auto.
+    - now apply kw_none.
+    - unfold dep_node. apply ahas_false_iff in Eb. now rewrite Eb, Eg.
   Qed.
+
+  (* the required set = the needed functions *)
+  Theorem required_iff_needed outs Sq f :
+    (forall t, In t outs <-> exists o h, In o Sq /\ producer p o = Some h /\ t = fid h) ->
+    In f p ->
+    (In (fid f) (required p Ip outs) <-> exists o, In o Sq /\ In f (needed_top p kw o)).
+  Proof.
+    intros Houts Hf. unfold required. rewrite in_app_iff. split.
+    - intros [H|H].
+      + apply in_flat_map in H as [t [Ht Hanc]]. apply Houts in Ht as [o [h [Ho [Eh ->]]]]. exists o. split; [assumption|].
+        pose proof (producer_Some _ _ _ Eh) as [Hh _]. apply ancestors_sound in Hanc.
+        eapply (path_needed_cut o _ _ Hanc f h); eauto. unfold needed_top. rewrite (needed_S p kw), Eh. now left.
+      + apply Houts in H as [o [h [Ho [Eh E]]]]. exists o. split; [assumption|].
+        pose proof (producer_Some _ _ _ Eh) as [Hh _]. assert (f = h) by (eapply (fid_inj p ls Hwf); eauto). subst h.
+        unfold needed_top. rewrite (needed_S p kw), Eh. now left.
+    - intros [o [Ho Hn]]. assert (Hop : exists h, producer p o = Some h).
+      { unfold needed_top in Hn. rewrite (needed_S p kw) in Hn. destruct (producer p o); [eauto|contradiction]. }
+      destruct Hop as [h Eh]. pose proof (needed_path _ o f h Hn Eh) as Hp.
+      assert (Ht : In (fid h) outs) by (apply Houts; eauto).
+      destruct (str_eq_dec (fid f) (fid h)) as [E|Hne]; [right; now rewrite E|].
+      left. apply in_flat_map. exists (fid h). split; [assumption|]. apply ancestors_complete; auto. apply wf_cut_graph.
+  Qed.
+End Cut.
+
+(* ---------- a successful subpipeline(I, S) ---------- *)
+Section Sub.
+  Variable p : pipeline.
+  Variable ls : list (list str).
+  Hypothesis Hwf : wf_P p ls.
+  Variable Ip : list str.
+  Variable Sq : list str.
+  Variable p' : pipeline.
+  Hypothesis Hsub : subpipeline p Ip (Some Sq) = Ok p'.
+  Variable kw : alist.
+  Hypothesis Hkw : forall k, In k (akeys kw) <-> In k Ip.
+
+  Let Hnd := wf_outs_nd _ _ Hwf.
+
+  Definition kept_of (outs : list str) : pipeline := keep p (required p Ip outs).
+
+  (* what success means *)
+  Lemma sub_facts : exists outs,
+    mapM (node_of p) Sq = Ok outs
+    /\ consistent_defaults (kept_of outs) = true
+    /\ p' = map (with_defaults (lost_defaults p (kept_of outs))) (kept_of outs)
+    /\ (forall o, In o Sq -> is_output p' o = true)
+    /\ (forall r, In r (root_arg_names p') ->
+          (In r (akeys (pdefaults p')) /\ In r (akeys (pdefaults p))) \/ In r Ip).
+  Proof.
+    unfold subpipeline in Hsub. destruct (mapM (node_of p) Ip) as [ins|e]; cbn in Hsub; [|discriminate].
+    destruct (mapM (node_of p) Sq) as [outs|e]; cbn in Hsub; [|discriminate]. exists outs. split; [reflexivity|].
+    fold (kept_of outs) in Hsub.
+    destruct (consistent_defaults (kept_of outs)) eqn:Ec; cbn in Hsub; [|discriminate]. split; [reflexivity|].
+    set (q' := map (with_defaults (lost_defaults p (kept_of outs))) (kept_of outs)) in *.
+    destruct (negb (forallb (is_output q') Sq)) eqn:E1; [discriminate|].
+    destruct (forallb _ (root_arg_names q')) eqn:E2; [|discriminate].
+    inversion Hsub; subst p'. split; [reflexivity|]. split.
+    - apply negb_false_iff in E1. rewrite forallb_forall in E1. exact E1.
+    - intros r Hr. rewrite forallb_forall in E2. specialize (E2 r Hr). apply orb_true_iff in E2 as [E2|E2].
+      + left. apply mem_str_In in E2. unfold inter_str in E2. apply filter_In in E2 as [H1 H2]. apply mem_str_In in H2. auto.
+      + right. now apply mem_str_In.
+  Qed.
+
+  (* the output nodes are the producers of the requested outputs *)
+  Lemma outs_char outs : mapM (node_of p) Sq = Ok outs -> (forall o, In o Sq -> is_output p o = true) ->
+    forall t, In t outs <-> exists o h, In o Sq /\ producer p o = Some h /\ t = fid h.
+  Proof.
+    intros Hm Ho t. split.
+    - intros Ht. destruct (mapM_Ok_In _ _ _ Hm t Ht) as [o [Hos Hn]]. apply Ho in Hos as Hop.
+      apply is_output_true in Hop as [h Eh]. unfold node_of in Hn. rewrite Eh in Hn. inversion Hn. eauto.
+    - intros [o [h [Hos [Eh ->]]]]. destruct (mapM_Ok_inv _ _ _ Hm o Hos) as [y [Hy Hn]]. unfold node_of in Hn.
+      rewrite Eh in Hn. inversion Hn; subst. assumption.
+  Qed.
+
+  Section WithOuts.
+    Variable outs : list str.
+    Hypothesis Hm : mapM (node_of p) Sq = Ok outs.
+    Hypothesis Hp' : p' = map (with_defaults (lost_defaults p (kept_of outs))) (kept_of outs).
+    Hypothesis Houtp' : forall o, In o Sq -> is_output p' o = true.
+    Hypothesis Hroots : forall r, In r (root_arg_names p') ->
+          (In r (akeys (pdefaults p')) /\ In r (akeys (pdefaults p))) \/ In r Ip.
+
+    Let q := kept_of outs.
+    Let upd := with_defaults (lost_defaults p q).
+
+    Lemma q_in_p f : In f q -> In f p.
+    Proof. unfold q, kept_of, keep. intros H. now apply filter_In in H. Qed.
+
+    Lemma is_output_p'_q o : is_output p' o = is_output q o.
+    Proof. rewrite Hp'. apply is_output_upd. Qed.
+
+    Lemma producer_q_p o f : producer q o = Some f -> producer p o = Some f.
+    Proof. intros H. apply producer_Some in H as [H1 H2]. apply producer_unique; auto. now apply q_in_p. Qed.
+
+    Lemma is_output_q_p o : is_output q o = true -> is_output p o = true.
+    Proof. intros H. apply is_output_true in H as [f Hf]. apply is_output_true. exists f. now apply producer_q_p. Qed.
+
+    Lemma S_outputs o : In o Sq -> is_output p o = true.
+    Proof. intros Ho. apply is_output_q_p. rewrite <- is_output_p'_q. now apply Houtp'. Qed.
+
+    (* EXACTNESS: the kept functions are exactly the needed ones *)
+    Theorem kept_iff_needed f : In f p -> (In f q <-> exists o, In o Sq /\ In f (needed_top p kw o)).
+    Proof.
+      intros Hf. unfold q, kept_of, keep. rewrite filter_In, mem_str_In.
+      rewrite (required_iff_needed p ls Hwf Ip kw Hkw outs Sq f (outs_char outs Hm S_outputs) Hf). tauto.
+    Qed.
+
+    (* an unbound parameter of a kept function that is not provided: its producer is kept too, or it is no
+       output at all and has the same default in both pipelines *)
+    Lemma kept_param g cur : In g q -> In cur (pnames g) -> aget (bound g) cur = None -> ~ In cur Ip ->
+      (is_output q cur = true) \/
+      (is_output q cur = false /\ is_output p cur = false /\ In cur (akeys (pdefaults p')) /\ In cur (akeys (pdefaults p))).
+    Proof.
+      intros Hg Hcur Hb Hni. destruct (is_output q cur) eqn:Eo; [now left|right]. split; [reflexivity|].
+      assert (Hr : In cur (root_arg_names p')).
+      { rewrite Hp', root_arg_names_upd. unfold root_arg_names. apply dedup_In, in_flat_map. exists g. split; [assumption|].
+        apply filter_In. split; [assumption|]. apply ahas_false_iff in Hb. fold q. now rewrite Hb, Eo. }
+      destruct (Hroots cur Hr) as [[H1 H2]|H]; [|contradiction]. split; [|auto].
+      unfold pdefaults, akeys in H2. apply in_map_iff in H2 as [[k v] [Ek H2]]. cbn in Ek. subst k.
+      apply in_flat_map in H2 as [g0 [_ H2]]. apply filter_In in H2 as [_ H2]. cbn in H2.
+      apply andb_true_iff in H2 as [_ H2]. now apply negb_true_iff in H2.
+    Qed.
+
+    (* every default of the sub-pipeline for a name that is no output of the full pipeline is its default there *)
+    Lemma pdefaults_p'_sound cur v : is_output p cur = false -> In (cur, v) (pdefaults p') -> default_of p cur = Some v.
+    Proof.
+      intros Ho Hin. rewrite Hp' in Hin. unfold pdefaults in Hin. apply in_flat_map in Hin as [g' [Hg' Hin]].
+      apply in_map_upd in Hg' as [g [Hg ->]]. apply filter_In in Hin as [Hin Hf]. cbn in Hin, Hf.
+      apply andb_true_iff in Hf as [Hnb _]. apply in_app_iff in Hin as [Hin|Hin].
+      - apply (wf_defaults _ _ Hwf). unfold pdefaults. apply in_flat_map. exists g. split; [now apply q_in_p|].
+        apply filter_In. split; [assumption|]. cbn. now rewrite Hnb, Ho.
+      - apply filter_In in Hin as [Hin _]. unfold lost_defaults in Hin. apply in_flat_map in Hin as [r [_ Hin]].
+        destruct (pdefault p r) as [d|] eqn:Ed; [|contradiction]. destruct (mem_str r (akeys (pdefaults (kept_of outs)))); [contradiction|].
+        destruct Hin as [E|[]]. inversion E; subst. now rewrite <- (pdefault_eq p ls Hwf).
+    Qed.
+
+    Lemma default_p' cur : is_output p cur = false -> In cur (akeys (pdefaults p')) ->
+      default_of p' cur = default_of p cur /\ default_of p cur <> None.
+    Proof.
+      intros Ho Hk. unfold default_of at 1. destruct (aget (pdefaults p') cur) as [v|] eqn:E.
+      - apply aget_Some_In in E. rewrite (pdefaults_p'_sound cur v Ho E). split; [reflexivity|discriminate].
+      - apply aget_None_iff in E. contradiction.
+    Qed.
+
+    (* VALUES: the sub-pipeline computes the values of the full pipeline *)
+    Theorem sub_values body pick : forall n o, is_output p' o = true ->
+      eval body pick n p' kw o = eval body pick n p kw o.
+    Proof.
+      induction n as [|n IH]; intros o Ho; [reflexivity|]. cbn [eval].
+      rewrite is_output_p'_q in Ho. apply is_output_true in Ho as [g Eg].
+      assert (Eg' : producer p' o = Some (upd g)) by (rewrite Hp', producer_upd; fold q; now rewrite Eg).
+      rewrite Eg', (producer_q_p _ _ Eg). pose proof (producer_Some _ _ _ Eg) as [Hg _].
+      change (fname (upd g)) with (fname g). change (route pick (upd g) o) with (route pick g o).
+      assert (E : args_with (eval body pick n p' kw) p' kw (upd g) = args_with (eval body pick n p kw) p kw g).
+      { unfold args_with. change (params (upd g)) with (params g). apply mapM_ext_in. intros [cur orig] Hin. cbn [fst snd].
+        assert (Hcur : In cur (pnames g)) by (apply in_map_iff; now exists (cur, orig)).
+        enough (arg_val (eval body pick n p' kw) p' kw (upd g) cur = arg_val (eval body pick n p kw) p kw g cur) as -> by reflexivity.
+        unfold arg_val. change (bound (upd g)) with (bound g).
+        destruct (aget (bound g) cur) eqn:Eb; [reflexivity|]. destruct (aget kw cur) eqn:Ek; [reflexivity|].
+        apply (kw_none Ip kw Hkw) in Ek. destruct (kept_param g cur Hg Hcur Eb Ek) as [Ho'|[Ho1 [Ho2 [Hd1 Hd2]]]].
+        - rewrite is_output_p'_q, Ho', (is_output_q_p _ Ho'). apply IH. now rewrite is_output_p'_q.
+        - rewrite is_output_p'_q, Ho1, Ho2. destruct (default_p' cur Ho2 Hd1) as [-> _]. reflexivity. }
+      now rewrite E.
+    Qed.
+
+    (* success implies that the request was computable *)
+    Theorem sub_computable : forall o, In o Sq -> is_output p o = true /\ sufficient p kw o.
+    Proof.
+      intros o Ho. split; [now apply S_outputs|]. intros f cur Hf Hcur.
+      assert (Hfp : In f p) by (apply (needed_in_p p kw (S (length p)) o f Hf)).
+      assert (Hfq : In f q) by (apply kept_iff_needed; eauto). unfold source_of.
+      destruct (aget (bound f) cur) eqn:Eb; [discriminate|]. destruct (aget kw cur) eqn:Ek; [discriminate|].
+      destruct (producer p cur) eqn:Ep; [discriminate|]. apply (kw_none Ip kw Hkw) in Ek.
+      destruct (kept_param f cur Hfq Hcur Eb Ek) as [Ho1|[Ho1 [Ho2 [Hd1 Hd2]]]].
+      - apply is_output_q_p in Ho1. apply is_output_true in Ho1 as [g Hg]. congruence.
+      - destruct (default_p' cur Ho2 Hd1) as [_ Hne]. destruct (default_of p cur); [discriminate|congruence].
+    Qed.
+  End WithOuts.
 End Sub.
 
-(* ---------- the two refutations (witnesses replayed on the real code, see known_findings.jsonl) ---------- *)
-Definition w_nullary : pipeline :=
-  [ mkf (s "const") [s "k"] [] [] [] false;
-    mkf (s "f") [s "y"] [(s "x", s "x"); (s "k", s "k")] [] [] false ].
-Lemma computable_refused_witness :
-  wf_pipelineb w_nullary = true /\ computableb w_nullary [s "x"] [s "y"] = true
-  /\ all_readb w_nullary [s "x"] [s "y"] = true
-  /\ subpipeline w_nullary [s "x"] (Some [s "y"]) = Err ValueError.
-Proof. vm_compute. auto. Qed.
+(* ---------- acceptance: every computable request is accepted ---------- *)
+(* the needed functions agree on the defaults of every name that no needed function produces.  (For a name that
+   is not an output of p this is part of wf_pipeline; it only constrains PROVIDED intermediate names whose
+   producer is cut off: there Pipeline._validate refuses the sub-pipeline, finding c11-inconsistent-dead-defaults.) *)
+Definition dead_defaults_agree (p : pipeline) (kw : alist) (Sq : list str) : Prop :=
+  forall f g cur v w o1 o2, In o1 Sq -> In o2 Sq -> In f (needed_top p kw o1) -> In g (needed_top p kw o2) ->
+    In (cur, v) (dflt f) -> In (cur, w) (dflt g) -> ahas (bound f) cur = false -> ahas (bound g) cur = false ->
+    is_output p cur = true ->
+    (forall h o, In o Sq -> In h (needed_top p kw o) -> ~ In cur (outs h)) -> v = w.
 
-Definition w_mixed : pipeline :=
-  [ mkf (s "f0") [s "a"] [(s "x", s "x")] [] [] false;
-    mkf (s "f3") [s "y"] [(s "x", s "x"); (s "a", s "a")] [] [] false ].
-Lemma not_exact_witness :
-  wf_pipelineb w_mixed = true /\ computableb w_mixed [s "x"; s "a"] [s "y"] = true
-  /\ all_readb w_mixed [s "x"; s "a"] [s "y"] = true
-  /\ needed_set w_mixed [s "x"; s "a"] [s "y"] = [s "y"]
-  /\ option_map (map fid) (match subpipeline w_mixed [s "x"; s "a"] (Some [s "y"]) with Ok q => Some q | Err _ => None end)
-     = Some [s "a"; s "y"].
-Proof. vm_compute. auto. Qed.
-
-(* ---------- final forms ---------- *)
-Theorem subpipeline_values body pick p Ip Sq p' kw :
-  wf_pipeline p -> subpipeline p Ip (Some Sq) = Ok p' -> (forall k, In k (akeys kw) <-> In k Ip) ->
-  forall n o, In o Sq -> eval body pick n p' kw o = eval body pick n p kw o.
+Lemma in_is_output q h k : In h q -> In k (outs h) -> is_output q k = true.
 Proof.
-  intros Hwf Hs Hk n o Ho. destruct (wf_pipeline_elim p Hwf) as [ls Hw].
-  destruct (sub_facts p Ip Sq p' Hs) as [b [_ [Houts _]]].
-  apply (sub_values p ls Hw Ip Sq p' Hs kw Hk). now apply Houts.
+  intros Hh Hk. unfold is_output, producer. destruct (find (fun f => mem_str k (outs f)) q) eqn:E; [reflexivity|].
+  eapply find_none in E; eauto. cbn in E. apply mem_str_In in Hk. congruence.
 Qed.
 
-Theorem subpipeline_keeps_needed p Ip Sq p' kw :
-  wf_pipeline p -> subpipeline p Ip (Some Sq) = Ok p' -> (forall k, In k (akeys kw) <-> In k Ip) ->
-  forall o f, In o Sq -> In f (needed_top p kw o) -> In f p'.
-Proof.
-  intros Hwf Hs Hk o f Ho Hf. destruct (wf_pipeline_elim p Hwf) as [ls Hw].
-  destruct (sub_facts p Ip Sq p' Hs) as [b [_ [Houts _]]].
-  eapply (needed_sub_kept p ls Hw Ip Sq p' Hs kw Hk); eauto.
-Qed.
+Section Accept.
+  Variable p : pipeline.
+  Variable ls : list (list str).
+  Hypothesis Hwf : wf_P p ls.
+  Variable Ip : list str.
+  Variable Sq : list str.
+  Variable kw : alist.
+  Hypothesis Hkw : forall k, In k (akeys kw) <-> In k Ip.
+  Hypothesis HI : forall k, In k Ip -> is_output p k = true \/ In k (root_arg_names p).
+  Hypothesis HS : forall o, In o Sq -> is_output p o = true /\ sufficient p kw o.
+  Hypothesis HD : dead_defaults_agree p kw Sq.
 
-(* success only for computable requests, i.e. an uncomputable request is rejected *)
-Theorem uncomputable_rejected p Ip Sq kw :
-  wf_pipeline p -> (forall k, In k (akeys kw) <-> In k Ip) ->
-  (exists o, In o Sq /\ ~ (is_output p o = true /\ sufficient p kw o)) ->
-  exists e, subpipeline p Ip (Some Sq) = Err e.
-Proof.
-  intros Hwf Hk [o [Ho Hn]]. destruct (subpipeline p Ip (Some Sq)) as [p'|e] eqn:Es; [|eauto].
-  exfalso. apply Hn. destruct (wf_pipeline_elim p Hwf) as [ls Hw].
-  apply (sub_computable p ls Hw Ip Sq p' Es kw Hk o Ho).
-Qed.
+  Lemma node_of_total k : is_output p k = true \/ In k (root_arg_names p) -> exists n, node_of p k = Ok n.
+  Proof.
+    unfold node_of. intros [H|H].
+    - apply is_output_true in H as [f ->]. eauto.
+    - destruct (producer p k); [eauto|]. apply mem_str_In in H. rewrite H. eauto.
+  Qed.
 
-Theorem subpipeline_needed_exact_roots p Ip Sq p' kw :
-  wf_pipeline p -> subpipeline p Ip (Some Sq) = Ok p' -> (forall k, In k (akeys kw) <-> In k Ip) ->
-  (forall k, In k Ip -> is_output p k = false) ->
-  forall f, In f p -> (In f p' <-> exists o, In o Sq /\ In f (needed_top p kw o)).
-Proof.
-  intros Hwf Hs Hk Hr f Hf. destruct (wf_pipeline_elim p Hwf) as [ls Hw].
-  apply (sub_exact_roots p ls Hw Ip Sq p' Hs kw Hk Hr f Hf).
-Qed.
+  Variable outs : list str.
+  Hypothesis Hm : mapM (node_of p) Sq = Ok outs.
+  Let q := kept_of p Ip outs.
+  Let upd := with_defaults (lost_defaults p q).
+  Let p' := map upd q.
 
-Theorem subpipeline_needed_exact_refuted :
-  exists p Ip Sq p', wf_pipeline p /\ computableb p Ip Sq = true /\ all_readb p Ip Sq = true
-    /\ subpipeline p Ip (Some Sq) = Ok p' /\ seteq_str (map fid p') (needed_set p Ip Sq) = false.
-Proof.
-  exists w_mixed, [s "x"; s "a"], [s "y"].
-  destruct (subpipeline w_mixed [s "x"; s "a"] (Some [s "y"])) as [q|e] eqn:E; [|vm_compute in E; discriminate].
-  exists q. vm_compute in E. inversion E; subst q. vm_compute. auto.
-Qed.
+  Lemma acc_q_in_p f : In f q -> In f p.
+  Proof. unfold q, kept_of, keep. intros H. now apply filter_In in H. Qed.
 
-Theorem computable_accepted_refuted :
-  exists p Ip Sq, wf_pipeline p /\ computableb p Ip Sq = true /\ all_readb p Ip Sq = true
-    /\ subpipeline p Ip (Some Sq) = Err ValueError.
-Proof. exists w_nullary, [s "x"], [s "y"]. vm_compute. auto. Qed.
+  Lemma acc_kept_iff f : In f p -> (In f q <-> exists o, In o Sq /\ In f (needed_top p kw o)).
+  Proof.
+    intros Hf. unfold q, kept_of, keep. rewrite filter_In, mem_str_In.
+    rewrite (required_iff_needed p ls Hwf Ip kw Hkw outs Sq f (outs_char p Sq outs Hm (fun o Ho => proj1 (HS o Ho))) Hf). tauto.
+  Qed.
+
+  Lemma acc_consistent : consistent_defaults q = true.
+  Proof.
+    unfold consistent_defaults. apply forallb_forall. intros [k v] Hin. cbn [fst snd].
+    destruct (aget (pdefaults q) k) as [v'|] eqn:E.
+    2:{ apply aget_None_iff in E. exfalso. apply E. unfold akeys. apply in_map_iff. now exists (k, v). }
+    apply aget_Some_In in E. apply str_eqb_eq.
+    assert (Hsrc : forall k v, In (k, v) (pdefaults q) ->
+              exists g, In g q /\ In (k, v) (dflt g) /\ ahas (bound g) k = false /\ is_output q k = false).
+    { intros k0 v0 H. unfold pdefaults in H. apply in_flat_map in H as [g [Hg H]]. apply filter_In in H as [H1 H2].
+      cbn in H2. apply andb_true_iff in H2 as [H2 H3]. apply negb_true_iff in H2, H3. eauto. }
+    destruct (Hsrc _ _ Hin) as [g [Hg [Hdg [Hbg Hoq]]]]. destruct (Hsrc _ _ E) as [g' [Hg' [Hdg' [Hbg' _]]]].
+    pose proof (acc_q_in_p _ Hg) as Hgp. pose proof (acc_q_in_p _ Hg') as Hgp'.
+    destruct (is_output p k) eqn:Eop.
+    - apply (acc_kept_iff g Hgp) in Hg as [o1 [Ho1 Hn1]]. apply (acc_kept_iff g' Hgp') in Hg' as [o2 [Ho2 Hn2]].
+      apply (HD g' g k v' v o2 o1); auto. intros h o Ho Hh Hk.
+      assert (Hhq : In h q) by (apply acc_kept_iff; [apply (needed_in_p p kw (S (length p)) o h Hh)|eauto]).
+      rewrite (in_is_output q h k Hhq Hk) in Hoq. discriminate.
+    - assert (H1 : In (k, v) (pdefaults p)).
+      { unfold pdefaults. apply in_flat_map. exists g. split; [assumption|]. apply filter_In. split; [assumption|]. cbn. now rewrite Hbg, Eop. }
+      assert (H2 : In (k, v') (pdefaults p)).
+      { unfold pdefaults. apply in_flat_map. exists g'. split; [assumption|]. apply filter_In. split; [assumption|]. cbn. now rewrite Hbg', Eop. }
+      apply (wf_defaults _ _ Hwf) in H1, H2. congruence.
+  Qed.
+
+  Lemma acc_outputs o : In o Sq -> is_output p' o = true.
+  Proof.
+    intros Ho. unfold p', upd. rewrite is_output_upd. destruct (HS o Ho) as [Hop _]. apply is_output_true in Hop as [h Eh].
+    pose proof (producer_Some _ _ _ Eh) as [Hh Hoh]. apply (in_is_output q h o); [|assumption].
+    apply acc_kept_iff; [assumption|]. exists o. split; [assumption|]. unfold needed_top. rewrite (needed_S p kw), Eh. now left.
+  Qed.
+
+  Lemma acc_roots r : In r (root_arg_names p') -> (In r (akeys (pdefaults p')) /\ In r (akeys (pdefaults p))) \/ In r Ip.
+  Proof.
+    intros Hr. unfold p', upd in Hr. rewrite root_arg_names_upd in Hr. pose proof Hr as Hr'. unfold root_arg_names in Hr'.
+    apply dedup_In, in_flat_map in Hr'. destruct Hr' as [g [Hg Hr']]. apply filter_In in Hr' as [Hcur Hc].
+    apply andb_true_iff in Hc as [Hb Hoq]. apply negb_true_iff in Hb, Hoq.
+    destruct (in_dec str_eq_dec r Ip) as [Hi|Hni]; [now right|left].
+    pose proof (acc_q_in_p _ Hg) as Hgp. pose proof Hg as Hgq. apply (acc_kept_iff g Hgp) in Hg as [o [Ho Hn]].
+    destruct (HS o Ho) as [_ Hsuf]. specialize (Hsuf g r Hn Hcur). unfold source_of in Hsuf.
+    pose proof Hb as Hb'. apply ahas_false_iff in Hb'. rewrite Hb' in Hsuf.
+    assert (Ek : aget kw r = None) by now apply (kw_none Ip kw Hkw). rewrite Ek in Hsuf.
+    destruct (producer p r) as [h|] eqn:Eh.
+    { exfalso. pose proof (producer_Some _ _ _ Eh) as [Hh Hrh].
+      assert (Hhn : In h (needed_top p kw o)).
+      { unfold needed_top in *. eapply (needed_closed p ls Hwf kw); eauto; [apply rk_lt_N; exact Hwf|].
+        apply source_SUp_intro; auto. }
+      assert (Hhq : In h q) by (apply acc_kept_iff; eauto). rewrite (in_is_output q h r Hhq Hrh) in Hoq. discriminate. }
+    destruct (default_of p r) as [v|] eqn:Ed; [|congruence]. clear Hsuf.
+    assert (Hkp : In r (akeys (pdefaults p))).
+    { unfold default_of in Ed. apply aget_Some_In in Ed. unfold akeys. apply in_map_iff. now exists (r, v). }
+    split; [|assumption].
+    assert (Hop' : is_output p' r = false) by (unfold p', upd; now rewrite is_output_upd).
+    destruct (in_dec str_eq_dec r (akeys (pdefaults q))) as [Hq|Hnq].
+    - unfold akeys in Hq. apply in_map_iff in Hq as [[k w] [Ekk Hq]]. cbn in Ekk. subst k.
+      unfold pdefaults in Hq. apply in_flat_map in Hq as [g0 [Hg0 Hq]]. apply filter_In in Hq as [Hq1 Hq2]. cbn in Hq2.
+      apply andb_true_iff in Hq2 as [Hq2 _].
+      unfold akeys. apply in_map_iff. exists (r, w). split; [reflexivity|]. unfold pdefaults. apply in_flat_map.
+      exists (upd g0). split; [unfold p'; now apply in_map|]. apply filter_In. split.
+      + unfold upd, with_defaults. cbn. apply in_app_iff. now left.
+      + cbn [fst]. change (bound (upd g0)) with (bound g0). now rewrite Hq2, Hop'.
+    - unfold akeys. apply in_map_iff. exists (r, v). split; [reflexivity|]. unfold pdefaults. apply in_flat_map.
+      exists (upd g). split; [unfold p'; now apply in_map|]. apply filter_In. split.
+      + unfold upd, with_defaults. cbn. apply in_app_iff. right. apply filter_In. split.
+        * unfold lost_defaults. apply in_flat_map. exists r. split; [exact Hr|].
+          rewrite (pdefault_eq p ls Hwf), Ed. destruct (mem_str r (akeys (pdefaults q))) eqn:Em; [|now left].
+          apply mem_str_In in Em. contradiction.
+        * cbn [fst]. apply mem_str_In in Hcur. now rewrite Hcur, Hb.
+      + cbn [fst]. change (bound (upd g)) with (bound g). now rewrite Hb, Hop'.
+  Qed.
+
+  Theorem acc_accepted : subpipeline p Ip (Some Sq) = Ok p'.
+  Proof.
+    unfold subpipeline. destruct (mapM_total (node_of p) Ip) as [ins Hins]; [intros k Hk; apply node_of_total; auto|].
+    rewrite Hins, Hm. cbn [bind]. fold (kept_of p Ip outs). fold q. rewrite acc_consistent. cbn [negb]. fold upd. fold p'.
+    assert (E1 : forallb (is_output p') Sq = true) by (apply forallb_forall; exact acc_outputs). rewrite E1. cbn [negb].
+    assert (E2 : forallb (fun r => mem_str r (inter_str (akeys (pdefaults p')) (akeys (pdefaults p))) || mem_str r Ip)
+                         (root_arg_names p') = true).
+    { apply forallb_forall. intros r Hr. apply orb_true_iff. destruct (acc_roots r Hr) as [[H1 H2]|H].
+      - left. apply mem_str_In. unfold inter_str. apply filter_In. split; [assumption|]. now apply mem_str_In.
+      - right. now apply mem_str_In. }
+    now rewrite E2.
+  Qed.
+End Accept.
+
+Theorem computable_accepted_P p ls Ip Sq kw : wf_P p ls -> (forall k, In k (akeys kw) <-> In k Ip) ->
+  (forall k, In k Ip -> is_output p k = true \/ In k (root_arg_names p)) ->
+  (forall o, In o Sq -> is_output p o = true /\ sufficient p kw o) ->
+  dead_defaults_agree p kw Sq ->
+  exists p', subpipeline p Ip (Some Sq) = Ok p'.
+Proof.
+  intros Hwf Hkw HI HS HD. destruct (mapM_total (node_of p) Sq) as [outs Hm].
+  { intros o Ho. apply node_of_total. left. now apply HS. }
+  eexists. eapply (acc_accepted p ls Hwf Ip Sq kw Hkw HI HS HD outs Hm).
+Qed.
 
 (* ====================================================================================================
    Pipeline.map on the sub-pipeline (scalar case): every kept function is called once and the results are
@@ -329,6 +480,15 @@ Proof.
   - apply str_eqb_neq in E. destruct (mem_str k l); [reflexivity|]. apply aget_aset_other. congruence.
 Qed.
 
+Lemma NoDup_map_inj_in' {A B} (f : A -> B) l :
+  (forall x y, In x l -> In y l -> f x = f y -> x = y) -> NoDup l -> NoDup (map f l).
+Proof.
+  induction l as [|a l IH]; intros Hinj Hnd; cbn; [constructor|]. inversion Hnd; subst. constructor.
+  - intros Hin. apply in_map_iff in Hin as [b [E Hb]]. assert (b = a) by (apply Hinj; [now right|now left|assumption]).
+    subst b. contradiction.
+  - apply IH; auto. intros x y Hx Hy. apply Hinj; now right.
+Qed.
+
 Section MapRun.
   Variable body : str -> alist -> result str.
   Variable pick : str -> str -> str.
@@ -339,39 +499,54 @@ Section MapRun.
   Variable Sq : list str.
   Variable p' : pipeline.
   Hypothesis Hsub : subpipeline p (akeys inputs) (Some Sq) = Ok p'.
+  Variable outs : list str.
+  Hypothesis Hm : mapM (node_of p) Sq = Ok outs.
+  Hypothesis Hp' : p' = map (with_defaults (lost_defaults p (kept_of p (akeys inputs) outs))) (kept_of p (akeys inputs) outs).
+  Hypothesis Houtp' : forall o, In o Sq -> is_output p' o = true.
+  Hypothesis Hroots : forall r, In r (root_arg_names p') ->
+          (In r (akeys (pdefaults p')) /\ In r (akeys (pdefaults p))) \/ In r (akeys inputs).
 
-  Let Hk : forall k, In k (akeys inputs) <-> In k (akeys inputs) := fun k => conj (fun x => x) (fun x => x).
+  Let q := kept_of p (akeys inputs) outs.
+  Let upd := with_defaults (lost_defaults p q).
+
+  Lemma mr_p'_inv f' : In f' p' -> exists g, In g q /\ In g p /\ f' = upd g.
+  Proof.
+    intros H. rewrite Hp' in H. apply in_map_upd in H as [g [Hg ->]]. exists g. split; [assumption|].
+    split; [now apply (q_in_p p (akeys inputs) outs)|reflexivity].
+  Qed.
+  Lemma mr_p'_intro g : In g q -> In (upd g) p'.
+  Proof. intros H. rewrite Hp'. now apply in_map. Qed.
 
   Lemma pdefault_sub cur d : is_output p cur = false -> pdefault p' cur = Some d -> default_of p cur = Some d.
   Proof.
-    intros Ho H. unfold pdefault in H. apply aget_Some_In in H. apply in_rev in H. unfold default_of.
-    apply (wf_defaults _ _ Hwf). unfold pdefaults in *. apply in_flat_map in H as [g [Hg H]]. apply in_flat_map. exists g.
-    split; [eapply kept_in_p; eauto|]. apply filter_In in H as [H1 H2]. apply filter_In. split; [assumption|]. cbn in *.
-    apply andb_true_iff in H2 as [H2 _]. now rewrite H2, Ho.
+    intros Ho H. unfold pdefault in H. apply aget_Some_In in H. apply in_rev in H.
+    eapply (pdefaults_p'_sound p ls Hwf (akeys inputs) Sq p' Hsub outs Hp' Houtp' Hroots); eauto.
   Qed.
 
   Definition StoreOK (store : alist) : Prop :=
     forall o v, aget store o = Some v -> eval_top body pick p inputs o = Ok v.
 
-  Lemma map_args_spec f store args : In f p' -> StoreOK store ->
-    map_args p' inputs store f = Ok args -> eval_args body pick p inputs f = Ok args.
+  Lemma map_args_spec g store args : In g q -> StoreOK store ->
+    map_args p' inputs store (upd g) = Ok args -> eval_args body pick p inputs g = Ok args.
   Proof.
-    intros Hf Hst. unfold map_args, eval_args, args_with. apply mapM_Ok_transfer. intros [cur orig] y Hin. cbn [fst snd].
-    assert (Hcur : In cur (pnames f)) by (apply in_map_iff; now exists (cur, orig)).
-    assert (Hfp : In f p) by (eapply kept_in_p; eauto).
-    unfold arg_val. destruct (aget (bound f) cur) eqn:Eb; [auto|]. destruct (aget inputs cur) eqn:Ek; [auto|].
+    intros Hg Hst. unfold map_args, eval_args, args_with. change (params (upd g)) with (params g).
+    apply mapM_Ok_transfer. intros [cur orig] y Hin. cbn [fst snd].
+    assert (Hcur : In cur (pnames g)) by (apply in_map_iff; now exists (cur, orig)).
+    assert (Hgp : In g p) by now apply (q_in_p p (akeys inputs) outs).
+    unfold arg_val. change (bound (upd g)) with (bound g).
+    destruct (aget (bound g) cur) eqn:Eb; [auto|]. destruct (aget inputs cur) eqn:Ek; [auto|].
     assert (Hni : ~ In cur (akeys inputs)) by now apply aget_None_iff.
-    destruct (kept_param p (akeys inputs) Sq p' Hsub f cur Hf Hcur Eb Hni) as [Ho'|[Ho1 [Ho2 _]]].
-    - rewrite Ho', (is_output_sub p ls Hwf _ _ _ Hsub cur Ho').
+    rewrite (is_output_p'_q p (akeys inputs) p' outs Hp').
+    destruct (kept_param p (akeys inputs) p' outs Hp' Hroots g cur Hg Hcur Eb Hni) as [Ho'|[Ho1 [Ho2 _]]].
+    - rewrite Ho'. pose proof (is_output_q_p p ls Hwf _ _ cur Ho') as Hop. rewrite Hop.
       destruct (aget store cur) as [v|] eqn:Es; cbn; [|discriminate]. intros E. inversion E; subst y.
-      apply Hst in Es. pose proof (is_output_sub p ls Hwf _ _ _ Hsub cur Ho') as Hop. clear Ho'. rename Hop into Ho'.
-      apply is_output_true in Ho' as [g Eg].
+      apply Hst in Es. apply is_output_true in Hop as [h Eh].
       assert (Hev : eval body pick (length p) p inputs cur = eval_top body pick p inputs cur).
       { unfold eval_top. apply (eval_fuel body pick p inputs ls Hwf); [|apply rk_lt_N; exact Hwf].
-        rewrite (rk_producer p ls _ _ Eg). rewrite <- ahas_false_iff in Eb.
-        pose proof (wf_rank_edge _ _ Hwf f g cur Hfp Hcur Eb Eg). pose proof (wf_rank_lt _ _ Hwf f Hfp). lia. }
+        rewrite (rk_producer p ls _ _ Eh). rewrite <- ahas_false_iff in Eb.
+        pose proof (wf_rank_edge _ _ Hwf g h cur Hgp Hcur Eb Eh). pose proof (wf_rank_lt _ _ Hwf g Hgp). lia. }
       now rewrite Hev, Es.
-    - rewrite Ho1, Ho2. destruct (pdefault p' cur) as [d|] eqn:Ed; cbn; [|discriminate].
+    - fold q. fold q in Ho1. rewrite Ho1, Ho2. destruct (pdefault p' cur) as [d|] eqn:Ed; cbn; [|discriminate].
       intros E. inversion E; subst y. now rewrite (pdefault_sub cur d Ho2 Ed).
   Qed.
 
@@ -380,7 +555,7 @@ Section MapRun.
 
   Record MInv (acc : alist * list call) (done : list str) : Prop := {
     mi_store : StoreOK (fst acc);
-    mi_outs : forall f o, In f (funcs_of done) -> In o (outs f) -> ahas (fst acc) o = true;
+    mi_outs : forall f o, In f (funcs_of done) -> In o (Pipe.outs f) -> ahas (fst acc) o = true;
     mi_log : map fst (snd acc) = map fname (funcs_of done);
   }.
 
@@ -405,19 +580,21 @@ Section MapRun.
         destruct (body (fname f) args) as [r|e] eqn:Eb; cbn [bind] in H; [|now rewrite fold_err in H].
         apply (IH (done ++ [n])) in H; [assumption|].
         pose proof (node_func_Some _ _ _ En) as [Hf Hfid].
-        pose proof (map_args_spec f store args Hf (mi_store _ _ HI) Ea) as Hargs.
-        assert (Hfp : In f p) by (eapply kept_in_p; eauto).
+        destruct (mr_p'_inv f Hf) as [g [Hgq [Hgp Efg]]].
         assert (Hfo : funcs_of (done ++ [n]) = funcs_of done ++ [f]).
         { unfold funcs_of. rewrite flat_map_app. cbn. now rewrite En, app_nil_r. }
+        rewrite Efg in Ea. pose proof (map_args_spec g store args Hgq (mi_store _ _ HI) Ea) as Hargs.
+        assert (Ef1 : fname f = fname g) by now rewrite Efg. assert (Ef2 : Pipe.outs f = Pipe.outs g) by now rewrite Efg.
+        assert (Ef3 : forall o, route pick f o r = route pick g o r) by (intros o; now rewrite Efg).
         constructor; cbn [fst snd].
         * intros o v Hv. rewrite (aget_fold_aset (fun o => route pick f o r)) in Hv.
-          destruct (mem_str o (outs f)) eqn:Eo; [|now apply (mi_store _ _ HI)].
-          inversion Hv; subst v. apply mem_str_In in Eo. unfold eval_top. cbn [eval].
-          rewrite (producer_unique p (wf_outs_nd _ _ Hwf) f o Hfp Eo).
-          unfold eval_args in Hargs. rewrite Hargs. cbn [bind]. now rewrite Eb.
-        * intros g o Hg Ho. rewrite Hfo in Hg. apply ahas_true_iff. rewrite (aget_fold_aset (fun o => route pick f o r)).
-          apply in_app_iff in Hg as [Hg|[<-|[]]].
-          -- destruct (mem_str o (outs f)); [eauto|]. apply ahas_true_iff. eapply (mi_outs _ _ HI); eauto.
+          destruct (mem_str o (Pipe.outs f)) eqn:Eo; [|now apply (mi_store _ _ HI)].
+          inversion Hv; subst v. apply mem_str_In in Eo. rewrite Ef2 in Eo. unfold eval_top. cbn [eval].
+          rewrite (producer_unique p (wf_outs_nd _ _ Hwf) g o Hgp Eo).
+          unfold eval_args in Hargs. rewrite Hargs. cbn [bind]. rewrite <- Ef1, Eb. now rewrite Ef3.
+        * intros h o Hh Ho. rewrite Hfo in Hh. apply ahas_true_iff. rewrite (aget_fold_aset (fun o => route pick f o r)).
+          apply in_app_iff in Hh as [Hh|[<-|[]]].
+          -- destruct (mem_str o (Pipe.outs f)); [eauto|]. apply ahas_true_iff. eapply (mi_outs _ _ HI); eauto.
           -- apply mem_str_In in Ho. rewrite Ho. eauto.
         * pose proof (mi_log _ _ HI) as Hl. cbn [snd] in Hl. rewrite Hfo, !map_app. cbn [map fst]. now rewrite <- Hl.
       + apply (IH (done ++ [n])) in H; [assumption|].
@@ -426,10 +603,21 @@ Section MapRun.
         constructor; cbn [fst snd]; try rewrite Hfo; [apply (mi_store _ _ HI)|apply (mi_outs _ _ HI)|apply (mi_log _ _ HI)].
   Qed.
 
+  Lemma fid_inj_p' f1 f2 : In f1 p' -> In f2 p' -> fid f1 = fid f2 -> f1 = f2.
+  Proof.
+    intros H1 H2 E. destruct (mr_p'_inv _ H1) as [g1 [_ [Hg1 ->]]]. destruct (mr_p'_inv _ H2) as [g2 [_ [Hg2 ->]]].
+    change (fid g1 = fid g2) in E. now rewrite (fid_inj p ls Hwf g1 g2 Hg1 Hg2 E).
+  Qed.
+  Lemma fname_inj_p' f1 f2 : In f1 p' -> In f2 p' -> fname f1 = fname f2 -> f1 = f2.
+  Proof.
+    intros H1 H2 E. destruct (mr_p'_inv _ H1) as [g1 [_ [Hg1 ->]]]. destruct (mr_p'_inv _ H2) as [g2 [_ [Hg2 ->]]].
+    change (fname g1 = fname g2) in E. now rewrite (fname_inj p ls Hwf g1 g2 Hg1 Hg2 E).
+  Qed.
+
   (* run_map on the validated sub-pipeline *)
   Theorem run_generations_spec store lg : run_generations body pick p' inputs = Ok (store, lg) ->
     (forall o, is_output p' o = true -> exists v, aget store o = Some v /\ eval_top body pick p inputs o = Ok v)
-    /\ (forall f, In f p -> (In f p' <-> In (fname f) (map fst lg))).
+    /\ (forall g, In g p -> (In g q <-> In (fname g) (map fst lg))).
   Proof.
     unfold run_generations. destruct (topo_generations (fgraph p')) as [layers|] eqn:Et; [|discriminate].
     intros H. assert (HI0 : MInv ([], []) []).
@@ -439,26 +627,18 @@ Section MapRun.
     { intros f Hf. unfold topo_generations in Et. destruct (kahn_sound _ _ _ _ Et) as [_ [Hc _]].
       destruct (Hc (fid f)) as [l [Hl1 Hl2]]; [cbn; now apply in_map|].
       unfold funcs_of. apply in_flat_map. exists (fid f). split; [apply in_concat; eauto|].
-      assert (Hfp : In f p) by (eapply kept_in_p; eauto).
       destruct (node_func p' (fid f)) as [g|] eqn:Eg.
-      - apply node_func_Some in Eg as [Hg Hfid]. left. eapply (fid_inj p ls Hwf); eauto. eapply kept_in_p; eauto.
+      - apply node_func_Some in Eg as [Hg Hfid]. left. now apply fid_inj_p'.
       - unfold node_func in Eg. eapply find_none in Eg; eauto. cbn in Eg. now rewrite str_eqb_refl in Eg. }
     split.
     - intros o Ho. apply is_output_true in Ho as [f Ef]. apply producer_Some in Ef as [Hf Hof].
       pose proof (mi_outs _ _ HI f o (Hcov f Hf) Hof) as Hh. apply ahas_true_iff in Hh as [v Hv]. exists v.
       split; [assumption|]. now apply (mi_store _ _ HI).
-    - intros f Hfp. pose proof (mi_log _ _ HI) as Hl. cbn [snd] in Hl. rewrite Hl. split.
-      + intros Hf. apply in_map. now apply Hcov.
-      + intros Hin. apply in_map_iff in Hin as [g [Eg Hg]]. apply funcs_of_in_p' in Hg as [Hg _].
-        assert (g = f) by (eapply (fname_inj p ls Hwf); eauto; eapply kept_in_p; eauto). now subst g.
-  Qed.
-  Lemma NoDup_map_inj_in' {A B} (f : A -> B) l :
-    (forall x y, In x l -> In y l -> f x = f y -> x = y) -> NoDup l -> NoDup (map f l).
-  Proof.
-    induction l as [|a l IH]; intros Hinj Hnd; cbn; [constructor|]. inversion Hnd; subst. constructor.
-    - intros Hin. apply in_map_iff in Hin as [b [E Hb]]. assert (b = a) by (apply Hinj; [now right|now left|assumption]).
-      subst b. contradiction.
-    - apply IH; auto. intros x y Hx Hy. apply Hinj; now right.
+    - intros g Hgp. pose proof (mi_log _ _ HI) as Hl. cbn [snd] in Hl. rewrite Hl. split.
+      + intros Hg. change (fname g) with (fname (upd g)). apply in_map. apply Hcov. now apply mr_p'_intro.
+      + intros Hin. apply in_map_iff in Hin as [f [Ef Hf]]. apply funcs_of_in_p' in Hf as [Hf _].
+        destruct (mr_p'_inv f Hf) as [g0 [Hg0q [Hg0p ->]]]. change (fname g0 = fname g) in Ef.
+        now rewrite <- (fname_inj p ls Hwf g0 g Hg0p Hgp Ef).
   Qed.
 
   Lemma funcs_of_NoDup : forall l, NoDup l -> NoDup (map fname (funcs_of l)).
@@ -468,7 +648,7 @@ Section MapRun.
     destruct (node_func p' n) as [f|] eqn:En; [|now apply IH]. cbn. constructor; [|now apply IH].
     intros Hin. apply in_map_iff in Hin as [g [Eg Hg]]. apply funcs_of_in_p' in Hg as [Hg1 Hg2].
     apply node_func_Some in En as [Hf Hfid].
-    assert (g = f) by (eapply (fname_inj p ls Hwf); eauto; eapply kept_in_p; eauto). subst g. congruence.
+    assert (g = f) by now apply fname_inj_p'. subst g. congruence.
   Qed.
 
   Theorem run_generations_once store lg : run_generations body pick p' inputs = Ok (store, lg) -> NoDup (map fst lg).
@@ -479,19 +659,130 @@ Section MapRun.
     pose proof (map_fold_spec _ [] _ _ HI0 H) as HI. cbn [app] in HI.
     pose proof (mi_log _ _ HI) as Hl. cbn [snd] in Hl. rewrite Hl. apply funcs_of_NoDup.
     unfold topo_generations in Et. apply (kahn_partition _ _ _ _) in Et as [Hnd _]; [assumption|]. cbn.
-    apply NoDup_map_inj_in'.
-    - intros x y Hx Hy. apply (fid_inj p ls Hwf); eapply kept_in_p; eauto.
-    - destruct (sub_facts p (akeys inputs) Sq p' Hsub) as [b [-> _]]. unfold keep. apply filter_NoDup.
-      eapply NoDup_map_inv. apply (wf_names_nd _ _ Hwf).
+    apply NoDup_map_inj_in'; [intros x y; apply fid_inj_p'|].
+    rewrite Hp'. apply NoDup_map_inj_in'.
+    - intros x y Hx Hy E. assert (E' : fname x = fname y) by (change (fname (upd x) = fname (upd y)); unfold upd, q; now rewrite E).
+      apply (fname_inj p ls Hwf); auto; now apply (q_in_p p (akeys inputs) outs).
+    - unfold kept_of, keep. apply filter_NoDup. eapply NoDup_map_inv. apply (wf_names_nd _ _ Hwf).
   Qed.
 End MapRun.
+
+(* the producers of the requested outputs are always kept: the check "a requested output did not survive" of
+   Pipeline.subpipeline can only fire for a requested name that is no output of the full pipeline at all *)
+Theorem requested_outputs_survive p Ip Sq outs :
+  mapM (node_of p) Sq = Ok outs ->
+  forall o, In o Sq -> is_output p o = true -> is_output (keep p (required p Ip outs)) o = true.
+Proof.
+  intros Hm o Ho Hop. apply is_output_true in Hop as [h Eh]. pose proof (producer_Some _ _ _ Eh) as [Hh Hoh].
+  destruct (mapM_Ok_inv _ _ _ Hm o Ho) as [y [Hy Hn]]. unfold node_of in Hn. rewrite Eh in Hn. inversion Hn; subst y.
+  apply (in_is_output _ h o); [|assumption]. unfold keep. apply filter_In. split; [assumption|].
+  apply mem_str_In. unfold required. apply in_app_iff. now right.
+Qed.
+
+(* ---------- the two former refutation witnesses, now accepted / exact (replayed on the repaired code) ---------- *)
+Definition w_nullary : pipeline :=
+  [ mkf (s "const") [s "k"] [] [] [] false;
+    mkf (s "f") [s "y"] [(s "x", s "x"); (s "k", s "k")] [] [] false ].
+Definition w_mixed : pipeline :=
+  [ mkf (s "f0") [s "a"] [(s "x", s "x")] [] [] false;
+    mkf (s "f3") [s "y"] [(s "x", s "x"); (s "a", s "a")] [] [] false ].
+Lemma former_witnesses :
+  (wf_pipelineb w_nullary = true /\ computableb w_nullary [s "x"] [s "y"] = true
+   /\ subpipeline w_nullary [s "x"] (Some [s "y"]) = Ok w_nullary)
+  /\ (wf_pipelineb w_mixed = true /\ computableb w_mixed [s "x"; s "a"] [s "y"] = true
+      /\ needed_set w_mixed [s "x"; s "a"] [s "y"] = [s "y"]
+      /\ subpipeline w_mixed [s "x"; s "a"] (Some [s "y"]) = Ok [mkf (s "f3") [s "y"] [(s "x", s "x"); (s "a", s "a")] [] [] false]).
+Proof. vm_compute. auto 10. Qed.
+
+(* the residual refusal: two needed functions disagree on the default of a provided intermediate name *)
+Definition w_dead : pipeline :=
+  [ mkf (s "h") [s "a"] [] [] [] false;
+    mkf (s "f") [s "b"] [(s "x", s "x"); (s "a", s "a")] [(s "a", s "1")] [] false;
+    mkf (s "g") [s "c"] [(s "b", s "b"); (s "a", s "a")] [(s "a", s "2")] [] false ].
+Lemma dead_defaults_witness :
+  wf_pipelineb w_dead = true /\ computableb w_dead [s "a"; s "x"] [s "c"] = true
+  /\ all_readb w_dead [s "a"; s "x"] [s "c"] = true
+  /\ subpipeline w_dead [s "a"; s "x"] (Some [s "c"]) = Err ValueError.
+Proof. vm_compute. auto. Qed.
+
+(* ---------- final forms ---------- *)
+Lemma akeys_kw_of Ip k : In k (akeys (kw_of Ip)) <-> In k Ip.
+Proof. unfold akeys, kw_of. rewrite map_map. cbn. now rewrite map_id. Qed.
+
+Theorem subpipeline_values body pick p Ip Sq p' kw :
+  wf_pipeline p -> subpipeline p Ip (Some Sq) = Ok p' -> (forall k, In k (akeys kw) <-> In k Ip) ->
+  forall n o, In o Sq -> eval body pick n p' kw o = eval body pick n p kw o.
+Proof.
+  intros Hwf Hs Hk n o Ho. destruct (wf_pipeline_elim p Hwf) as [ls Hw].
+  destruct (sub_facts p Ip Sq p' Hs) as [outs [Hm [_ [Hp' [Houts Hroots]]]]].
+  apply (sub_values p ls Hw Ip Sq p' Hs kw Hk outs Hp' Houts Hroots). now apply Houts.
+Qed.
+
+(* the sub-pipeline consists of functions of p (with, possibly, restored defaults) *)
+Theorem subpipeline_functions p Ip Sq p' :
+  subpipeline p Ip (Some Sq) = Ok p' ->
+  forall f', In f' p' -> exists f, In f p /\ fname f' = fname f /\ outs f' = outs f /\ params f' = params f
+                                   /\ bound f' = bound f /\ cached f' = cached f.
+Proof.
+  intros Hs f' Hf'. destruct (sub_facts p Ip Sq p' Hs) as [outs [_ [_ [Hp' _]]]]. rewrite Hp' in Hf'.
+  apply in_map_upd in Hf' as [f [Hf ->]]. exists f. split; [now apply (q_in_p p Ip outs)|]. cbn. auto.
+Qed.
+
+(* EXACTLY the needed functions are kept - for every cut I, without any guard *)
+Theorem subpipeline_needed_exact p Ip Sq p' kw :
+  wf_pipeline p -> subpipeline p Ip (Some Sq) = Ok p' -> (forall k, In k (akeys kw) <-> In k Ip) ->
+  forall f, In f p -> (In (fid f) (map fid p') <-> exists o, In o Sq /\ In f (needed_top p kw o)).
+Proof.
+  intros Hwf Hs Hk f Hf. destruct (wf_pipeline_elim p Hwf) as [ls Hw].
+  destruct (sub_facts p Ip Sq p' Hs) as [outs [Hm [_ [Hp' [Houts Hroots]]]]].
+  rewrite <- (kept_iff_needed p ls Hw Ip Sq p' kw Hk outs Hm Hp' Houts f Hf). rewrite Hp'. split.
+  - intros H. apply in_map_iff in H as [f' [E Hf']]. apply in_map_upd in Hf' as [g [Hg ->]]. change (fid g = fid f) in E.
+    pose proof (q_in_p p Ip outs g Hg) as Hgp. now rewrite <- (fid_inj p ls Hw g f Hgp Hf E).
+  - intros H. apply in_map_iff. exists (with_defaults (lost_defaults p (kept_of p Ip outs)) f). split; [reflexivity|now apply in_map].
+Qed.
+
+Theorem subpipeline_needed_exact_set p Ip Sq p' :
+  wf_pipeline p -> subpipeline p Ip (Some Sq) = Ok p' -> seteq_str (map fid p') (needed_set p Ip Sq) = true.
+Proof.
+  intros Hwf Hs. destruct (wf_pipeline_elim p Hwf) as [ls Hw].
+  pose proof (subpipeline_needed_exact p Ip Sq p' (kw_of Ip) Hwf Hs (akeys_kw_of Ip)) as Hex.
+  unfold seteq_str. apply andb_true_iff. split; apply subset_str_incl; intros n Hn.
+  - apply in_map_iff in Hn as [f' [<- Hf']]. destruct (subpipeline_functions p Ip Sq p' Hs f' Hf') as [f [Hf [_ [Eo _]]]].
+    assert (E : fid f' = fid f) by (unfold fid; now rewrite Eo).
+    assert (H : In (fid f) (map fid p')) by (rewrite <- E; now apply in_map).
+    apply (Hex f Hf) in H as [o [Ho Hn]]. unfold needed_set. apply dedup_In. rewrite E. apply in_map. apply in_flat_map. eauto.
+  - unfold needed_set in Hn. rewrite dedup_In in Hn. apply in_map_iff in Hn as [f [<- Hn]]. apply in_flat_map in Hn as [o [Ho Hn]].
+    apply Hex; [|eauto]. apply (needed_in_p p (kw_of Ip) (S (length p)) o f Hn).
+Qed.
+
+(* success only for computable requests, i.e. an uncomputable request is rejected *)
+Theorem uncomputable_rejected p Ip Sq kw :
+  wf_pipeline p -> (forall k, In k (akeys kw) <-> In k Ip) ->
+  (exists o, In o Sq /\ ~ (is_output p o = true /\ sufficient p kw o)) ->
+  exists e, subpipeline p Ip (Some Sq) = Err e.
+Proof.
+  intros Hwf Hk [o [Ho Hn]]. destruct (subpipeline p Ip (Some Sq)) as [p'|e] eqn:Es; [|eauto].
+  exfalso. apply Hn. destruct (wf_pipeline_elim p Hwf) as [ls Hw].
+  destruct (sub_facts p Ip Sq p' Es) as [outs [Hm [_ [Hp' [Houts Hroots]]]]].
+  apply (sub_computable p ls Hw Ip Sq p' Es kw Hk outs Hm Hp' Houts Hroots o Ho).
+Qed.
+
+(* every computable request is accepted (the provided names must be names of the pipeline; the needed functions
+   must agree on the defaults of provided intermediate names) *)
+Theorem computable_accepted p Ip Sq kw :
+  wf_pipeline p -> (forall k, In k (akeys kw) <-> In k Ip) ->
+  (forall k, In k Ip -> is_output p k = true \/ In k (root_arg_names p)) ->
+  (forall o, In o Sq -> is_output p o = true /\ sufficient p kw o) ->
+  dead_defaults_agree p kw Sq ->
+  exists p', subpipeline p Ip (Some Sq) = Ok p'.
+Proof. intros Hwf. destruct (wf_pipeline_elim p Hwf) as [ls Hw]. now apply (computable_accepted_P p ls). Qed.
 
 (* map(inputs, output_names=S [, auto_subpipeline]) : values of the full pipeline; the calls are the kept functions *)
 Theorem map_run_spec body pick p inputs Sq auto store lg :
   wf_pipeline p -> map_run body pick p inputs (Some Sq) auto = Ok (store, lg) ->
   exists p', subpipeline p (akeys inputs) (Some Sq) = Ok p'
     /\ (forall o, In o Sq -> exists v, aget store o = Some v /\ eval_top body pick p inputs o = Ok v)
-    /\ (forall f, In f p -> (In f p' <-> In (fname f) (map fst lg)))
+    /\ (forall f, In f p -> (In (fid f) (map fid p') <-> In (fname f) (map fst lg)))
     /\ NoDup (map fst lg).
 Proof.
   intros Hwf H. destruct (wf_pipeline_elim p Hwf) as [ls Hw]. unfold map_run in H.
@@ -499,19 +790,256 @@ Proof.
   destruct (subpipeline p (akeys inputs) (Some Sq)) as [p'|e] eqn:Es; cbn [bind] in H; [|discriminate].
   destruct (validate_complete_inputs p' inputs); cbn [bind] in H; [|discriminate].
   exists p'. split; [reflexivity|].
-  destruct (run_generations_spec body pick p ls Hw inputs Sq p' Es store lg H) as [H1 H2].
-  split; [|split; [exact H2|exact (run_generations_once body pick p ls Hw inputs Sq p' Es store lg H)]].
-  intros o Ho. apply H1. destruct (sub_facts p (akeys inputs) Sq p' Es) as [b [_ [Houts _]]]. now apply Houts.
+  destruct (sub_facts p (akeys inputs) Sq p' Es) as [outs [Hm [_ [Hp' [Houts Hroots]]]]].
+  destruct (run_generations_spec body pick p ls Hw inputs Sq p' Es outs Hp' Houts Hroots store lg H) as [H1 H2].
+  split; [|split; [|eapply (run_generations_once body pick p ls Hw inputs); eauto]].
+  - intros o Ho. apply H1. now apply Houts.
+  - intros f Hf. rewrite <- (H2 f Hf).
+    rewrite (subpipeline_needed_exact p (akeys inputs) Sq p' inputs Hwf Es (fun k => conj (fun x => x) (fun x => x)) f Hf).
+    symmetry. apply (kept_iff_needed p ls Hw (akeys inputs) Sq p' inputs (fun k => conj (fun x => x) (fun x => x)) outs Hm Hp' Houts f Hf).
 Qed.
 
-(* with root arguments as inputs the calls are exactly the needed functions, each once *)
+(* the calls are exactly the needed functions, each once - for every set of provided names *)
 Theorem map_calls_exactly_needed body pick p inputs Sq auto store lg :
   wf_pipeline p -> map_run body pick p inputs (Some Sq) auto = Ok (store, lg) ->
-  (forall k, In k (akeys inputs) -> is_output p k = false) ->
   NoDup (map fst lg)
   /\ forall f, In f p -> (In (fname f) (map fst lg) <-> exists o, In o Sq /\ In f (needed_top p inputs o)).
 Proof.
-  intros Hwf H Hr. destruct (map_run_spec body pick p inputs Sq auto store lg Hwf H) as [p' [Es [_ [H2 H3]]]].
+  intros Hwf H. destruct (map_run_spec body pick p inputs Sq auto store lg Hwf H) as [p' [Es [_ [H2 H3]]]].
   split; [assumption|]. intros f Hf. rewrite <- (H2 f Hf).
-  apply (subpipeline_needed_exact_roots p (akeys inputs) Sq p' inputs Hwf Es (fun k => conj (fun x => x) (fun x => x)) Hr f Hf).
+  apply (subpipeline_needed_exact p (akeys inputs) Sq p' inputs Hwf Es (fun k => conj (fun x => x) (fun x => x)) f Hf).
 Qed.
+
+(* ====================================================================================================
+   Acceptance at the level of Pipeline.map: the run of an accepted sub-pipeline succeeds
+   ==================================================================================================== *)
+Lemma wf_dflt_params p f k : wf_pipeline p -> In f p -> In k (akeys (dflt f)) -> In k (pnames f).
+Proof.
+  unfold wf_pipeline, wf_pipelineb. rewrite !andb_true_iff. intros [[[[H1 _] _] _] _] Hf Hk.
+  rewrite forallb_forall in H1. specialize (H1 f Hf). unfold wf_func in H1. rewrite !andb_true_iff in H1.
+  destruct H1 as [[[_ H1] _] _]. apply subset_str_incl in H1. now apply H1.
+Qed.
+
+Section MapAccept.
+  Variable body : str -> alist -> result str.
+  Variable pick : str -> str -> str.
+  Hypothesis Hbody : forall f a, exists r, body f a = Ok r.
+  Variable p : pipeline.
+  Hypothesis Hwfb : wf_pipeline p.
+  Variable ls : list (list str).
+  Hypothesis Hwf : wf_P p ls.
+  Variable inputs : alist.
+  Variable Sq : list str.
+  Variable p' : pipeline.
+  Hypothesis Hsub : subpipeline p (akeys inputs) (Some Sq) = Ok p'.
+  Variable outs : list str.
+  Hypothesis Hm : mapM (node_of p) Sq = Ok outs.
+  Hypothesis Hp' : p' = map (with_defaults (lost_defaults p (kept_of p (akeys inputs) outs))) (kept_of p (akeys inputs) outs).
+  Hypothesis Houtp' : forall o, In o Sq -> is_output p' o = true.
+  Hypothesis Hroots : forall r, In r (root_arg_names p') ->
+          (In r (akeys (pdefaults p')) /\ In r (akeys (pdefaults p))) \/ In r (akeys inputs).
+
+  Let q := kept_of p (akeys inputs) outs.
+  Let upd := with_defaults (lost_defaults p q).
+
+  Lemma ma_inv f' : In f' p' -> exists g, In g q /\ In g p /\ f' = upd g.
+  Proof. apply (mr_p'_inv p inputs p' outs Hp'). Qed.
+
+  (* a producer inside the sub-pipeline is the producer in the full pipeline *)
+  Lemma ma_producer cur g' : producer p' cur = Some g' -> exists g, In g q /\ g' = upd g /\ producer p cur = Some g.
+  Proof.
+    intros H. rewrite Hp', producer_upd in H. fold q in H. destruct (producer q cur) as [g|] eqn:Eg; [|discriminate].
+    inversion H; subst g'. exists g. pose proof (producer_Some _ _ _ Eg) as [Hg _]. repeat split; auto.
+    apply (producer_q_p p ls Hwf (akeys inputs) outs cur g Eg).
+  Qed.
+
+  (* the edges of the function graph of the sub-pipeline *)
+  Lemma ma_edge u v : In (u, v) (edges (fgraph p')) ->
+    exists f g cur, In f q /\ In g q /\ v = fid f /\ u = fid g /\ In cur (pnames f) /\ ahas (bound f) cur = false
+                    /\ producer p cur = Some g.
+  Proof.
+    unfold fgraph. cbn [edges]. intros H. apply in_flat_map in H as [f' [Hf' H]]. apply in_map_iff in H as [n [E Hn]].
+    injection E as E1 E2; subst u v. rewrite dedup_In in Hn. apply filter_In in Hn as [Hn Ho].
+    unfold fpreds in Hn. apply in_flat_map in Hn as [cur [Hcur Hn]]. unfold dep_node in Hn.
+    destruct (ahas (bound f') cur) eqn:Eb; [contradiction|]. destruct (ma_inv f' Hf') as [f [Hfq [Hfp ->]]].
+    destruct (producer p' cur) as [g'|] eqn:Eg.
+    - destruct Hn as [<-|[]]. destruct (ma_producer cur g' Eg) as [g [Hgq [-> Egp]]]. exists f, g, cur. repeat split; auto.
+    - destruct Hn as [<-|[]]. apply is_output_false in Eg. congruence.
+  Qed.
+
+  Lemma ma_edge_intro f g cur : In f q -> In cur (pnames f) -> ahas (bound f) cur = false -> producer q cur = Some g ->
+    In (fid g, fid f) (edges (fgraph p')).
+  Proof.
+    intros Hf Hcur Hb Eg. unfold fgraph. cbn [edges]. apply in_flat_map. exists (upd f). split; [now apply (mr_p'_intro p inputs p' outs Hp')|].
+    apply in_map_iff. exists (fid g). split; [reflexivity|]. rewrite dedup_In. apply filter_In.
+    assert (Egp' : producer p' cur = Some (upd g)) by (rewrite Hp', producer_upd; fold q; now rewrite Eg).
+    split.
+    - unfold fpreds. apply in_flat_map. exists cur. split; [exact Hcur|]. unfold dep_node.
+      change (bound (upd f)) with (bound f). rewrite Hb, Egp'. now left.
+    - pose proof (producer_Some _ _ _ Egp') as [Hg' _]. apply (in_is_output p' (upd g)); [assumption|].
+      change (In (fid g) (Pipe.outs g)). pose proof (producer_Some _ _ _ Eg) as [Hgq _].
+      apply fid_in_outs. apply (wff_outs_ne _ (wf_funcs _ _ Hwf g (q_in_p p (akeys inputs) outs g Hgq))).
+  Qed.
+
+  Lemma ma_topo : exists layers, topo_generations (fgraph p') = Some layers.
+  Proof.
+    apply (topo_generations_complete (fgraph p') (rank_of ls)). intros u v _ _ He.
+    destruct (ma_edge u v He) as [f [g [cur [Hf [Hg [-> [-> [Hcur [Hb Eg]]]]]]]]].
+    apply (wf_rank_edge _ _ Hwf f g cur); auto. now apply (q_in_p p (akeys inputs) outs).
+  Qed.
+
+  Lemma node_func_fid_p' f' : In f' p' -> node_func p' (fid f') = Some f'.
+  Proof.
+    intros Hf. destruct (node_func p' (fid f')) as [g|] eqn:Eg.
+    - apply node_func_Some in Eg as [Hg Hfid]. f_equal. now apply (fid_inj_p' p ls Hwf inputs p' outs Hp').
+    - unfold node_func in Eg. eapply find_none in Eg; eauto. cbn in Eg. now rewrite str_eqb_refl in Eg.
+  Qed.
+
+  Lemma pdefault_Some_of_key (d : pipeline) k : In k (akeys (pdefaults d)) -> exists v, pdefault d k = Some v.
+  Proof.
+    intros H. unfold pdefault. destruct (aget (rev (pdefaults d)) k) eqn:E; [eauto|]. apply aget_None_iff in E.
+    exfalso. apply E. unfold akeys in *. rewrite map_rev. now apply -> in_rev.
+  Qed.
+
+  (* one step of the run succeeds when the producers of the function's arguments have run *)
+  Lemma ma_step done acc n : MInv body pick p inputs p' acc done ->
+    (forall f, node_func p' n = Some f -> forall cur g, In cur (pnames f) -> aget (bound f) cur = None ->
+               aget inputs cur = None -> producer p' cur = Some g -> In (fid g) done) ->
+    exists acc', map_step body pick p' inputs (Ok acc) n = Ok acc'.
+  Proof.
+    intros HI Hdone. destruct acc as [store lg]. unfold map_step. cbn [bind].
+    destruct (node_func p' n) as [f|] eqn:En; [|eauto]. pose proof (node_func_Some _ _ _ En) as [Hf Hfid].
+    assert (Ha : exists args, map_args p' inputs store f = Ok args).
+    { unfold map_args. apply mapM_total. intros [cur orig] Hin.
+      assert (Hcur : In cur (pnames f)) by (apply in_map_iff; now exists (cur, orig)).
+      destruct (aget (bound f) cur) eqn:Eb; [cbn; eauto|]. destruct (aget inputs cur) eqn:Ek; [cbn; eauto|].
+      destruct (is_output p' cur) eqn:Eo.
+      - apply is_output_true in Eo as [g Eg]. pose proof (Hdone f eq_refl cur g Hcur Eb Ek Eg) as Hd.
+        pose proof (producer_Some _ _ _ Eg) as [Hg Hco].
+        assert (Hgf : In g (funcs_of p' done)).
+        { unfold funcs_of. apply in_flat_map. exists (fid g). split; [assumption|]. rewrite (node_func_fid_p' g Hg). now left. }
+        pose proof (mi_outs _ _ _ _ _ _ _ HI g cur Hgf Hco) as Hh. cbn [fst] in Hh. apply ahas_true_iff in Hh as [v Hv].
+        rewrite Hv. cbn. eauto.
+      - assert (Hr : In cur (root_arg_names p')).
+        { unfold root_arg_names. apply dedup_In, in_flat_map. exists f. split; [assumption|]. apply filter_In.
+          split; [assumption|]. apply ahas_false_iff in Eb. now rewrite Eb, Eo. }
+        destruct (Hroots cur Hr) as [[Hd _]|Hi].
+        + destruct (pdefault_Some_of_key p' cur Hd) as [v Hv]. rewrite Hv. cbn. eauto.
+        + apply aget_None_iff in Ek. contradiction. }
+    destruct Ha as [args Ha]. rewrite Ha. cbn [bind]. destruct (Hbody (fname f) args) as [r Hr]. rewrite Hr. cbn [bind]. eauto.
+  Qed.
+
+  Lemma ma_fold : forall l done acc, MInv body pick p inputs p' acc done ->
+    (forall l1 n l2 f, l = l1 ++ n :: l2 -> node_func p' n = Some f -> forall cur g, In cur (pnames f) ->
+        aget (bound f) cur = None -> aget inputs cur = None -> producer p' cur = Some g -> In (fid g) (done ++ l1)) ->
+    exists acc', fold_left (map_step body pick p' inputs) l (Ok acc) = Ok acc'.
+  Proof.
+    induction l as [|n l IH]; intros done acc HI Hpos; [cbn; eauto|]. cbn [fold_left].
+    destruct (ma_step done acc n HI) as [acc1 H1].
+    { intros f En cur g Hcur Eb Ek Eg. pose proof (Hpos [] n l f eq_refl En cur g Hcur Eb Ek Eg) as H. now rewrite app_nil_r in H. }
+    rewrite H1. apply (IH (done ++ [n]) acc1).
+    - apply (map_fold_spec body pick p ls Hwf inputs Sq p' Hsub outs Hp' Houtp' Hroots [n] done acc acc1 HI). cbn. exact H1.
+    - intros l1 m l2 f E En cur g Hcur Eb Ek Eg. rewrite <- app_assoc. cbn [app].
+      apply (Hpos (n :: l1) m l2 f (f_equal (cons n) E) En cur g Hcur Eb Ek Eg).
+  Qed.
+
+  Theorem ma_run_generations : exists store lg, run_generations body pick p' inputs = Ok (store, lg).
+  Proof.
+    unfold run_generations. destruct ma_topo as [layers Et]. rewrite Et.
+    assert (HI0 : MInv body pick p inputs p' ([], []) []).
+    { constructor; cbn; [intros o v E; discriminate|intros f o []|reflexivity]. }
+    destruct (ma_fold (concat layers) [] ([], []) HI0) as [[store lg] H]; [|eauto].
+    intros l1 n l2 f E En cur g' Hcur Eb Ek Eg. cbn [app].
+    pose proof (node_func_Some _ _ _ En) as [Hf Hfid]. destruct (ma_inv f Hf) as [f0 [Hf0q [Hf0p ->]]].
+    destruct (ma_producer cur g' Eg) as [g [Hgq [-> Egp]]].
+    assert (Egq : producer q cur = Some g).
+    { rewrite Hp', producer_upd in Eg. fold q in Eg. destruct (producer q cur) as [g1|] eqn:E1; [|discriminate].
+      pose proof (producer_q_p p ls Hwf (akeys inputs) outs cur g1 E1). congruence. }
+    apply ahas_false_iff in Eb.
+    pose proof (ma_edge_intro f0 g cur Hf0q Hcur Eb Egq) as He.
+    unfold topo_generations in Et. destruct (kahn_sound _ _ _ _ Et) as [_ [Hcov Hord]].
+    assert (Hnf : In (fid f0) (nodes (fgraph p'))) by (cbn; change (fid f0) with (fid (upd f0)); now apply in_map).
+    assert (Hng : In (fid g) (nodes (fgraph p'))).
+    { cbn. change (fid g) with (fid (upd g)). apply in_map. now apply (mr_p'_intro p inputs p' outs Hp'). }
+    assert (Hlt : rank_of layers (fid g) < rank_of layers (fid f0)).
+    { apply Hord; auto. unfold preds. apply in_map_iff. exists (fid g, fid f0). split; [reflexivity|].
+      apply filter_In. split; [assumption|]. cbn. apply str_eqb_refl. }
+    apply (rank_lt_before layers (fid g) n l1 l2); auto.
+    - destruct (Hcov (fid g) Hng) as [l [Hl1 Hl2]]. apply in_concat. eauto.
+    - change (fid (upd f0)) with (fid f0) in Hfid. now rewrite <- Hfid.
+  Qed.
+
+  (* _validate_complete_inputs passes when every provided name is a root argument of the sub-pipeline *)
+  Lemma ma_validate : (forall k, In k (akeys inputs) -> In k (root_arg_names p')) -> validate_complete_inputs p' inputs = Ok tt.
+  Proof.
+    intros Hin. unfold validate_complete_inputs.
+    assert (E1 : subset_str (root_arg_names p') (akeys inputs ++ akeys (pdefaults p')) = true).
+    { apply subset_str_incl. intros r Hr. apply in_app_iff. destruct (Hroots r Hr) as [[H _]|H]; auto. }
+    assert (E2 : subset_str (akeys inputs ++ akeys (pdefaults p')) (root_arg_names p') = true).
+    { apply subset_str_incl. intros k Hk. apply in_app_iff in Hk as [Hk|Hk]; [now apply Hin|].
+      unfold akeys in Hk. apply in_map_iff in Hk as [[k0 v] [E Hk]]. cbn in E. subst k0.
+      unfold pdefaults in Hk. apply in_flat_map in Hk as [f' [Hf' Hk]]. apply filter_In in Hk as [Hk Hc]. cbn [fst] in Hc.
+      destruct (ma_inv f' Hf') as [f [Hfq [Hfp ->]]].
+      assert (Hpn : In k (pnames f)).
+      { unfold upd, with_defaults in Hk. cbn in Hk. apply in_app_iff in Hk as [Hk|Hk].
+        - apply (wf_dflt_params p f k Hwfb Hfp). unfold akeys. apply in_map_iff. now exists (k, v).
+        - apply filter_In in Hk as [_ Hk]. cbn [fst] in Hk. apply andb_true_iff in Hk as [Hk _]. now apply mem_str_In. }
+      unfold root_arg_names. apply dedup_In, in_flat_map. exists (upd f). split; [assumption|]. apply filter_In.
+      split; [exact Hpn|exact Hc]. }
+    now rewrite E1, E2.
+  Qed.
+End MapAccept.
+
+(* map(inputs, output_names=S): every computable request outside the two known-finding regions is accepted and
+   runs to completion (with total user functions) *)
+Theorem map_computable_accepted body pick p inputs Sq auto :
+  wf_pipeline p -> (forall f a, exists r, body f a = Ok r) ->
+  (forall o, In o Sq -> is_output p o = true /\ sufficient p inputs o) ->
+  dead_defaults_agree p inputs Sq ->
+  (forall k, In k (akeys inputs) ->
+     exists o f, In o Sq /\ In f (needed_top p inputs o) /\ In k (pnames f) /\ aget (bound f) k = None) ->
+  (forall k, In k (akeys inputs) -> forall o f, In o Sq -> In f (needed_top p inputs o) -> ~ In k (outs f)) ->
+  exists store lg, map_run body pick p inputs (Some Sq) auto = Ok (store, lg).
+Proof.
+  intros Hwfb Hbody HS HD Hread Hnot. destruct (wf_pipeline_elim p Hwfb) as [ls Hw].
+  set (Hk := fun k : str => conj (fun x : In k (akeys inputs) => x) (fun x : In k (akeys inputs) => x)).
+  assert (HI : forall k, In k (akeys inputs) -> is_output p k = true \/ In k (root_arg_names p)).
+  { intros k Hkin. destruct (Hread k Hkin) as [o [f [Ho [Hf [Hkp Hb]]]]].
+    destruct (is_output p k) eqn:Eo; [now left|right]. unfold root_arg_names. apply dedup_In, in_flat_map. exists f.
+    split; [apply (needed_in_p p inputs (S (length p)) o f Hf)|]. apply filter_In. split; [assumption|].
+    apply ahas_false_iff in Hb. now rewrite Hb, Eo. }
+  destruct (mapM_total (node_of p) Sq) as [outs Hm].
+  { intros o Ho. apply (node_of_total p). left. now apply HS. }
+  pose proof (acc_accepted p ls Hw (akeys inputs) Sq inputs Hk HI HS HD outs Hm) as Hsub.
+  set (q := kept_of p (akeys inputs) outs) in *. set (p' := map (with_defaults (lost_defaults p q)) q) in *.
+  assert (Hp' : p' = map (with_defaults (lost_defaults p (kept_of p (akeys inputs) outs))) (kept_of p (akeys inputs) outs)) by reflexivity.
+  pose proof (acc_outputs p ls Hw (akeys inputs) Sq inputs Hk HS outs Hm) as Houtp'. fold q in Houtp'. fold p' in Houtp'.
+  pose proof (acc_roots p ls Hw (akeys inputs) Sq inputs Hk HS outs Hm) as Hroots. fold q in Hroots. fold p' in Hroots.
+  unfold map_run. replace (auto || true) with true by now destruct auto. rewrite Hsub. cbn [bind].
+  assert (Hin : forall k, In k (akeys inputs) -> In k (root_arg_names p')).
+  { intros k Hkin. destruct (Hread k Hkin) as [o [f [Ho [Hf [Hkp Hb]]]]].
+    assert (Hfp : In f p) by apply (needed_in_p p inputs (S (length p)) o f Hf).
+    assert (Hfq : In f q) by (apply (acc_kept_iff p ls Hw (akeys inputs) Sq inputs Hk HS outs Hm f Hfp); eauto).
+    unfold root_arg_names. apply dedup_In, in_flat_map. exists (with_defaults (lost_defaults p q) f).
+    split; [unfold p'; now apply in_map|]. apply filter_In. split; [exact Hkp|].
+    change (bound (with_defaults (lost_defaults p q) f)) with (bound f). apply ahas_false_iff in Hb. rewrite Hb. cbn [negb andb].
+    apply negb_true_iff. rewrite (is_output_p'_q p (akeys inputs) p' outs Hp'). fold q.
+    destruct (is_output q k) eqn:Eo; [|reflexivity]. exfalso. apply is_output_true in Eo as [g Eg].
+    pose proof (producer_Some _ _ _ Eg) as [Hgq Hkg]. pose proof (q_in_p p (akeys inputs) outs g Hgq) as Hgp.
+    apply (acc_kept_iff p ls Hw (akeys inputs) Sq inputs Hk HS outs Hm g Hgp) in Hgq as [o' [Ho' Hg']].
+    exact (Hnot k Hkin o' g Ho' Hg' Hkg). }
+  rewrite (ma_validate p Hwfb inputs p' outs Hp' Hroots Hin). cbn [bind].
+  exact (ma_run_generations body pick Hbody p ls Hw inputs Sq p' Hsub outs Hp' Houtp' Hroots).
+Qed.
+
+(* the guard on provided outputs of needed functions cannot be dropped: f(x) -> (a, c); h(a, c) -> d;
+   inputs {x, a}; S = {d}: computable, the sub-pipeline is built, map refuses the provided a *)
+Definition w_k2 : pipeline :=
+  [ mkf (s "f") [s "a"; s "c"] [(s "x", s "x")] [] [] false;
+    mkf (s "h") [s "d"] [(s "a", s "a"); (s "c", s "c")] [] [] false ].
+Lemma k2_witness :
+  wf_pipelineb w_k2 = true /\ computableb w_k2 [s "x"; s "a"] [s "d"] = true
+  /\ all_readb w_k2 [s "x"; s "a"] [s "d"] = true
+  /\ subpipeline w_k2 [s "x"; s "a"] (Some [s "d"]) = Ok w_k2
+  /\ map_run Sym.body Sym.pick w_k2 [(s "x", s "1"); (s "a", s "A")] (Some [s "d"]) false = Err ValueError.
+Proof. vm_compute. auto 10. Qed.
